@@ -44,9 +44,9 @@ Does not decide: bounded-read accounting of a stream wrapper placed around every
 from __future__ import annotations
 
 import ast
-from typing import Dict, List, Optional, Tuple
+from typing import Dict, List, Optional, Sequence, Tuple
 
-from engines import c23facts, linform, pyfacts as pf, strparts
+from engines import c23facts, c23norm, inline, linform, pyfacts as pf, strparts
 from engines.common import AnalysisError, Ctx
 
 META = dict(
@@ -77,6 +77,11 @@ IMPLS = {  # file -> class
     LOC: 'LocalAsyncFS', RT: 'RouterAsyncFS', GCS: 'GoogleStorageAsyncFS', S3: 'S3AsyncFS', AZ: 'AzureAsyncFS',
 }
 SCAN_DIRS = ['hail/python/hailtop/aiotools', 'hail/python/hailtop/aiocloud', 'hail/python/hailtop/fs']
+
+
+def _load(rel: str) -> pf.Module:
+    """The module with `X = X + E` spelled `X += E` (engines/c23norm): one spelling of a counter update for every rule below."""
+    return c23norm.normalised_module(rel)
 
 
 def _stmts(fn: ast.AST) -> List[ast.stmt]:
@@ -175,12 +180,15 @@ def _range_backend(ctx: Ctx, rel: str, cls: str, request_pred, carrier) -> Optio
     for nid, lab in tests.items():
         ctx.need(lab is not None, f'{where}: test on `{length}` not recognised: `{g.nodes[nid].text()}`')
     results: List[Tuple[Optional[bool], List[strparts.Part], str]] = []
+    Env = Dict[str, List[strparts.Part]]
 
-    def ev(e: ast.AST, env: Dict[str, List[strparts.Part]]) -> List[strparts.Part]:
+    def ev(e: ast.AST, env: Env) -> List[strparts.Part]:
         out: List[strparts.Part] = []
-        for kind, txt in strparts.parts(e):
+        for kind, txt in strparts.parts(c23norm.strnorm(e)):
             if kind == 'expr' and txt in env:
                 out += env[txt]
+            elif kind == 'expr':
+                out.append(('expr', _subst_ints(txt, env)))
             else:
                 out.append((kind, txt))
         # merge literals
@@ -192,20 +200,35 @@ def _range_backend(ctx: Ctx, rel: str, cls: str, request_pred, carrier) -> Optio
                 merged.append(p)
         return merged
 
-    def walk(n: pf.Node, env: Dict[str, List[strparts.Part]], given: Optional[bool], seen: Tuple[int, ...], depth: int) -> None:
+    def walk(n: pf.Node, env: Env, given: Optional[bool], seen: Tuple[int, ...], depth: int) -> None:
         ctx.need(depth < 200 and len(results) < 64, f'{where}: too many paths')
         if n is REQ:
             results.append((given, ev(val, env), ' / '.join(g.nodes[i].text() for i in seen if g.nodes[i].kind == 'test')))
             return
         a = n.ast
         env2 = env
-        if n.kind == 'stmt' and isinstance(a, ast.Assign) and len(a.targets) == 1 and isinstance(a.targets[0], ast.Name):
+        if n.kind == 'stmt' and isinstance(a, (ast.Assign, ast.AnnAssign)) and getattr(a, 'value', None) is not None \
+                and all(isinstance(t, ast.Name) for t in (a.targets if isinstance(a, ast.Assign) else [a.target])):
+            tg = [t.id for t in (a.targets if isinstance(a, ast.Assign) else [a.target])]  # type: ignore[union-attr]
             try:
-                env2 = {**env, a.targets[0].id: ev(a.value, env)}
+                v = ev(a.value, env)
+                env2 = {**env, **{t: v for t in tg}}
             except AnalysisError:
-                env2 = {k: v for k, v in env.items() if k != a.targets[0].id}
+                env2 = {**env, **{t: [('expr', f'<{t}: not followed>')] for t in tg}}
         elif n.kind == 'stmt' and isinstance(a, ast.AugAssign) and isinstance(a.target, ast.Name) and isinstance(a.op, ast.Add) and a.target.id in env:
             env2 = {**env, a.target.id: ev(ast.BinOp(left=ast.Name(a.target.id, ast.Load()), op=ast.Add(), right=a.value), env)}
+        elif a is not None and n.kind in ('stmt', 'loop', 'with'):
+            # any other binding (tuple targets, loop targets, with-as, other augmented assignments): the name is no longer known
+            hdr: List[ast.AST] = []
+            if isinstance(a, (ast.For, ast.AsyncFor, ast.AugAssign)):
+                hdr = [a.target]
+            elif isinstance(a, (ast.With, ast.AsyncWith)):
+                hdr = [it.optional_vars for it in a.items if it.optional_vars is not None]
+            elif isinstance(a, ast.Assign):
+                hdr = list(a.targets)
+            killed = {x.id for h in hdr for x in ast.walk(h) if isinstance(x, ast.Name) and isinstance(x.ctx, ast.Store)}
+            if killed:
+                env2 = {**env, **{k: [('expr', f'<{k}: not followed>')] for k in killed}}
         for nxt, lab in n.succ:
             if lab == 'exc' or nxt is g.raise_exit or nxt.id in seen:
                 continue
@@ -223,37 +246,91 @@ def _range_backend(ctx: Ctx, rel: str, cls: str, request_pred, carrier) -> Optio
     open_ok, closed_ok = [], []
     problems: List[str] = []
     for given, ps, via in results:
-        head_ok = len(ps) >= 3 and ps[0] == ('lit', 'bytes=') and ps[1] == ('expr', start) and ps[2] == ('lit', '-')
-        if not head_ok:
-            problems.append(f'the Range value is {ps} (path: {via or "straight"}); it must begin with bytes={{{start}}}-')
-            continue
-        tail = ps[3:]
         for case in ([given] if given is not None else [False, True]):
-            if not case:
-                if tail:
-                    problems.append(f'without a length the Range value is {ps}; expected the open range bytes={{{start}}}-')
-                else:
-                    open_ok.append(via)
+            # a FAIL needs a Range value the analysis resolved completely (literal text and integer expressions over the parameters)
+            why = _range_template_problem(ps, start, length, case, [], f'{where} (path: {via or "straight"})')
+            if why is None:
+                (closed_ok if case else open_ok).append(via)
             else:
-                if len(tail) != 1 or tail[0][0] != 'expr':
-                    problems.append(f'with a length the Range value is {ps} (path: {via or "straight"}): '
-                                    + ('the range is open-ended, so everything up to the end of the object is returned' if not tail else 'the end offset is not a single expression'))
-                    continue
-                try:
-                    d = linform.lin(strparts.expr_of(tail[0][1])) - (linform.sym(start) + linform.sym(length) - linform.const(1))
-                except AnalysisError as e:
-                    raise AnalysisError(f'{where}: end offset `{tail[0][1]}` not linear ({e})')
-                if d == linform.const(0):
-                    closed_ok.append(via)
-                else:
-                    problems.append(f'with a length the last byte requested is `{tail[0][1]}` = {start} + {length} - 1 + ({d!r}): HTTP ranges are inclusive, so '
-                                    f'{"one byte too many is" if d == linform.const(1) else "the wrong span is"} returned (e.g. start=0, length=1 asks for bytes=0-{0 + 1 - 1 + (d.const if d.is_const() else 0)})')
+                problems.append(f'{why} (path: {via or "straight"})')
     if problems:
         ctx.bad('R1', cons + '::value', problems[0] + (f' (+{len(problems) - 1} more)' if len(problems) > 1 else ''), m.path, req.lineno, extra=problems[:6])
     else:
         ctx.need(open_ok and closed_ok, f'{where}: open/closed range cases not both observed')
         ctx.ok('R1', cons + '::value', {'paths': len(results)})
     return req
+
+
+def _subst_ints(txt: str, env: Dict[str, List[strparts.Part]]) -> str:
+    """Source text of an integer expression with the locals that hold ONE expression replaced by it (`last = start + length - 1`)."""
+    try:
+        e = strparts.expr_of(txt)
+    except SyntaxError:
+        return txt
+
+    class S(ast.NodeTransformer):
+        def visit_Name(self, node: ast.Name):
+            v = env.get(node.id)
+            if v is not None and len(v) == 1 and v[0][0] == 'expr':
+                try:
+                    return strparts.expr_of(v[0][1])
+                except SyntaxError:
+                    return ast.Name(id=f'{node.id}?', ctx=ast.Load())
+            if v is not None:
+                return ast.Name(id=f'{node.id}?', ctx=ast.Load())  # a string local inside an arithmetic expression: not resolved
+            return node
+
+        def visit_Lambda(self, node):
+            return node
+    return pf.nsrc(S().visit(e))
+
+
+def _range_template_problem(ps: List[strparts.Part], start: str, length: str, given: bool, deferred: List[str], where: str) -> Optional[str]:
+    """None when the template is `bytes={start + d}-` (no length) / `bytes={start + d}-{start + length - 1}` (length given), d = the sum of the
+    re-request parameters; a description of what is requested instead when it is a DIFFERENT, fully resolved template; AnalysisError when a part
+    of it could not be resolved to literal text and integer expressions over the parameters (then nothing is known about what is sent)."""
+    allowed = {start, length, *deferred}
+    rp: List[Tuple[str, object]] = []
+    for kind, txt in ps:
+        if kind == 'lit':
+            rp.append(('lit', txt))
+            continue
+        try:
+            l = linform.lin(strparts.expr_of(txt))
+        except (AnalysisError, SyntaxError) as e:
+            raise AnalysisError(f'{where}: the part `{txt}` of the Range value is not an integer expression the analysis resolved ({e})')
+        unresolved = [x for x in l.symbols() if x not in allowed]
+        if unresolved:
+            raise AnalysisError(f'{where}: the part `{txt}` of the Range value depends on {unresolved}, not only on ({start}, {length})')
+        rp.append(('lin', l))
+    lo = linform.sym(start)
+    for dname in deferred:
+        lo = lo + linform.sym(dname)
+    hi = linform.sym(start) + linform.sym(length) - linform.const(1)
+    want: List[Tuple[str, object]] = [('lit', 'bytes='), ('lin', lo), ('lit', '-')] + ([('lin', hi)] if given else [])
+    if rp == want:
+        return None
+    shown = ''.join(t if k == 'lit' else '{' + t + '}' for k, t in ps)
+    if len(rp) < 3 or rp[0] != ('lit', 'bytes=') or rp[1][0] != 'lin' or rp[2] != ('lit', '-'):
+        return f'the Range value is `{shown}`; it must begin with bytes={{{start}}}-'
+    if rp[1][1] != lo:
+        return (f'the first byte requested is `{ps[1][1]}` = {start}{" + " + " + ".join(deferred) if deferred else ""} + ({(rp[1][1] - lo)!r})')  # type: ignore[operator]
+    tail = rp[3:]
+    if not given:
+        return f'without a length the Range value is `{shown}`; expected the open range bytes={{{start}}}-'
+    if not tail:
+        return f'with a length the Range value is `{shown}`: the range is open-ended, so everything up to the end of the object is returned'
+    if len(tail) != 1 or tail[0][0] != 'lin':
+        return f'with a length the Range value is `{shown}`: the end offset is not a single expression'
+    d = tail[0][1] - hi  # type: ignore[operator]
+    moved = bool(deferred) and set(d.symbols()) <= set(deferred)
+    if moved:
+        return (f'the last byte requested is `{ps[3][1]}` = {start} + {length} - 1 + ({d!r}): the END of the range moves with the re-request offset - after {deferred[0]} bytes have been '
+                f'delivered the stream goes on for {deferred[0]} bytes beyond the range (e.g. {start}=0, {length}=4, body cut after 2 bytes: the re-request asks for bytes=2-5 and the caller '
+                f'receives 6 bytes)')
+    return (f'with a length the last byte requested is `{ps[3][1]}` = {start} + {length} - 1 + ({d!r}): HTTP ranges are inclusive on both ends, so '
+            f'{"one byte too many is" if d == linform.const(1) else "the wrong span is"} returned'
+            + (f' (e.g. {start}=0, {length}=1 asks for bytes=0-{d.const})' if d.is_const() else ''))
 
 
 def _range_events(ctx: Ctx, rel: str, cls: str, fn: pf.FuncDef, where: str, start: str, length: str, request_pred, req: ast.Call) -> None:
@@ -311,36 +388,10 @@ def _range_events(ctx: Ctx, rel: str, cls: str, fn: pf.FuncDef, where: str, star
             continue
         ctx.need(isinstance(ev.value, c23facts.RxS), f'{where}: the Range of {what} is not a string template the analysis could follow')
         ps = ev.value.parts  # type: ignore[union-attr]
-        head_ok = len(ps) >= 3 and ps[0] == ('lit', 'bytes=') and ps[1][0] == 'expr' and ps[2] == ('lit', '-')
-        if not head_ok:
-            val_bad.append((f'{what}: the Range value is {ps}; it must begin with bytes={{{start}}}-', ev.call.lineno, ev.file))
-            continue
-        try:
-            dlo = linform.lin(strparts.expr_of(ps[1][1])) - linform.sym(start) - dsum
-        except (AnalysisError, SyntaxError) as e:
-            raise AnalysisError(f'{where}: first byte `{ps[1][1]}` of {what} not linear ({e})')
-        if dlo != linform.const(0):
-            val_bad.append((f'{what}: the first byte requested is `{ps[1][1]}` = {start}{" + " + " + ".join(ev.deferred) if ev.deferred else ""} + ({dlo!r})', ev.call.lineno, ev.file))
-            continue
-        tail = ps[3:]
-        if not ev.given:
-            if tail:
-                val_bad.append((f'{what}: without a length the Range value is {ps}; expected the open range bytes={{{start}}}-', ev.call.lineno, ev.file))
-            continue
-        if len(tail) != 1 or tail[0][0] != 'expr':
-            val_bad.append((f'{what}: with a length the Range value is {ps}: ' + ('the range is open-ended, so everything up to the end of the object is returned' if not tail
-                                                                                 else 'the end offset is not a single expression'), ev.call.lineno, ev.file))
-            continue
-        try:
-            d = linform.lin(strparts.expr_of(tail[0][1])) - (linform.sym(start) + linform.sym(length) - linform.const(1))
-        except (AnalysisError, SyntaxError) as e:
-            raise AnalysisError(f'{where}: end offset `{tail[0][1]}` of {what} not linear ({e})')
-        if d != linform.const(0):
-            moved = ev.deferred and set(d.symbols()) <= set(ev.deferred)
-            val_bad.append((f'{what}: the last byte requested is `{tail[0][1]}` = {start} + {length} - 1 + ({d!r}): '
-                            + (f'the END of the range moves with the re-request offset - after {ev.deferred[0]} bytes have been delivered the stream goes on for {ev.deferred[0]} bytes '
-                               f'beyond the range (e.g. {start}=0, {length}=4, body cut after 2 bytes: the re-request asks for bytes=2-5 and the caller receives 6 bytes)' if moved else
-                               'HTTP ranges are inclusive on both ends, the wrong span is returned'), ev.call.lineno, ev.file))
+        # a FAIL needs a template the analysis resolved completely; anything else raises (declined)
+        why = _range_template_problem(ps, start, length, ev.given, list(ev.deferred), f'{where}: {what}')
+        if why is not None:
+            val_bad.append((f'{what}: {why}', ev.call.lineno, ev.file))
     ctx.need(seen_first[True] and seen_first[False] or sent_bad or val_bad, f'{where}: not every case (with / without length) reaches a request')
     if sent_bad:
         ctx.bad('R1', cons + '::sent', sent_bad[0][0] + (f' (+{len(sent_bad) - 1} more)' if len(sent_bad) > 1 else ''), sent_bad[0][2], sent_bad[0][1], extra=[x[0] for x in sent_bad[:6]])
@@ -380,69 +431,199 @@ def _s3_carrier(c: ast.Call) -> Optional[ast.AST]:
 # R2 SDK / stream back ends
 # ------------------------------------------------------------------------------------------------
 
+def _unchanged(fn: pf.FuncDef, e: Optional[ast.AST], param: str) -> Optional[bool]:
+    """Is the argument `e` the parameter `param` of fn, unchanged?  True / False (a DIFFERENT value the analysis resolved completely: an
+    expression over the parameters and constants only) / None (not resolved: a call result, an attribute, a rebound name ...)."""
+    if e is None:
+        return None
+    params = {a.arg for a in fn.args.posonlyargs + fn.args.args + fn.args.kwonlyargs}
+    x = pf.expand_locals(fn, e)
+    names = pf.names_in(x)
+    # a parameter that is assigned to inside the function no longer stands for the caller's value
+    if any(nm in params and len(pf.assignments(fn).get(nm, [])) != 1 for nm in names):
+        return None
+    if isinstance(x, ast.Name) and x.id == param:
+        return True
+    if names <= params and not any(isinstance(y, (ast.Call, ast.Await, ast.Attribute, ast.Subscript, ast.Lambda, ast.IfExp, ast.BoolOp, ast.NamedExpr, ast.Starred)) for y in ast.walk(x)):
+        return False
+    return None
+
+
+def _bind_args(c: ast.Call, params: List[str]) -> Optional[Dict[str, ast.AST]]:
+    """Arguments of the call by parameter name (positional ones through `params`); None with star arguments."""
+    if any(isinstance(a, ast.Starred) for a in c.args) or any(k.arg is None for k in c.keywords) or len(c.args) > len(params):
+        return None
+    out: Dict[str, ast.AST] = {params[i]: a for i, a in enumerate(c.args)}
+    for k in c.keywords:
+        out[k.arg] = k.value  # type: ignore[index]
+    return out
+
+
+def _forwarding(ctx: Ctx, fn: pf.FuncDef, c: ast.Call, callee_params: List[str], want: Dict[str, str], optional: Dict[str, str], rule: str, cons: str, where: str,
+                path: str) -> None:
+    """`c` must hand the parameters of fn on unchanged: want = {callee parameter: our parameter}.  FAIL only for an argument that is a
+    different, completely resolved value, or for an optional argument (optional = {callee parameter: what its default means}) that is left
+    out; an argument the analysis cannot resolve is declined."""
+    bound = _bind_args(c, callee_params)
+    ctx.need(bound is not None, f'{where}: `{pf.nsrc(c)}` uses star arguments; not recognised')
+    bad: List[str] = []
+    unknown: List[str] = []
+    for cp, ours in want.items():
+        if cp not in bound:  # type: ignore[operator]
+            if cp in optional:
+                bad.append(f'`{cp}` is not passed ({optional[cp]})')
+            else:
+                unknown.append(f'`{cp}` is not passed')
+            continue
+        v = _unchanged(fn, bound[cp], ours)  # type: ignore[index]
+        if v is False:
+            bad.append(f'{cp}={pf.nsrc(pf.expand_locals(fn, bound[cp]))} instead of {cp}={ours}')  # type: ignore[index]
+        elif v is None:
+            unknown.append(f'{cp}={pf.nsrc(bound[cp])} is not resolved to a parameter')  # type: ignore[index]
+    if bad:
+        ctx.bad(rule, cons, f'`{pf.nsrc(c)}` does not forward ({", ".join(want.values())}) unchanged: ' + '; '.join(bad), path, c.lineno)
+    else:
+        ctx.need(not unknown, f'{where}: `{pf.nsrc(c)}`: ' + '; '.join(unknown))
+        ctx.ok(rule, cons, pf.nsrc(c))
+
+
+def _read_modes(f: pf.FuncDef, call: ast.Call) -> str:
+    """Which kind of read reaches `call` inside a `read(self, n=-1)` method: 'read()' (only when n is the read-all sentinel), 'read(k)' (only
+    with a count), 'read' (both); '' for other methods.  Tests on n are decided per case, everything else both ways."""
+    ps = [a.arg for a in f.args.args]
+    if f.name != 'read' or len(ps) != 2:
+        return ''
+    n = ps[1]
+    g = pf.cfg(f)
+    cn = g.node_of(call)
+    if len(cn) != 1:
+        return 'read'
+    modes = []
+    for case in ('sentinel', 'count'):
+        def edge_ok(a: pf.Node, b: pf.Node, lab: str, case=case) -> bool:
+            if a.kind != 'test' or a.ast is None or lab not in ('T', 'F') or n not in pf.names_in(a.ast):
+                return True
+            tv = _sentinel_truth(a.ast, n)
+            if tv is None:
+                return True
+            if case == 'count':
+                # decided only for tests that separate -1 from every count k >= 0
+                t = a.ast
+                while isinstance(t, ast.UnaryOp) and isinstance(t.op, ast.Not):
+                    t = t.operand
+                sep = isinstance(t, ast.Compare) and len(t.ops) == 1 and (
+                    (isinstance(t.ops[0], (ast.Eq, ast.NotEq)) and '-1' in (pf.nsrc(t.left), pf.nsrc(t.comparators[0])))
+                    or (isinstance(t.ops[0], (ast.Lt, ast.GtE)) and pf.nsrc(t.left) == n and pf.nsrc(t.comparators[0]) == '0')
+                    or (isinstance(t.ops[0], (ast.Gt, ast.LtE)) and pf.nsrc(t.comparators[0]) == n and pf.nsrc(t.left) == '0'))
+                if not sep:
+                    return True
+                tv = not tv
+            return (lab == 'T') == tv
+        if cn[0].id in g.reachable_from(g.entry, edge_ok=edge_ok):
+            modes.append(case)
+    return {('sentinel',): 'read()', ('count',): 'read(k)'}.get(tuple(modes), 'read')
+
+
+def _self_attr(fn: pf.FuncDef, e: Optional[ast.AST]) -> Optional[str]:
+    """`self.<attr>` (through single-definition locals) -> attr."""
+    if e is None:
+        return None
+    x = pf.expand_locals(fn, e)
+    if isinstance(x, ast.Attribute) and isinstance(x.value, ast.Name) and x.value.id == 'self':
+        return x.attr
+    return None
+
+
 def _azure(ctx: Ctx) -> None:
-    m = pf.load(AZ)
+    m = _load(AZ)
     fn = m.func('AzureAsyncFS._open_from')
     where = f'{AZ}::AzureAsyncFS._open_from'
     url, start, length = _sig(ctx, fn, where)
     rets = [st for st in _stmts(fn) if isinstance(st, ast.Return)]
-    ctx.need(len(rets) == 1 and isinstance(rets[0].value, ast.Call), f'{where}: expected one return of a stream constructor')
-    c = rets[0].value
+    ctx.need(len(rets) == 1 and rets[0].value is not None, f'{where}: expected one return of a stream constructor')
+    c = pf.expand_locals(fn, rets[0].value)
+    ctx.need(isinstance(c, ast.Call), f'{where}: expected one return of a stream constructor')
     sname = pf.dotted(c.func)
     ctx.need(sname is not None, f'{where}: stream constructor not recognised')
-    scls = m.cls(sname)
+    m.cls(sname)
     init = m.func(f'{sname}.__init__')
     iparams = [a.arg for a in init.args.args][1:]
-    bound: Dict[str, str] = {}
-    for i, a in enumerate(c.args):
-        if i < len(iparams):
-            bound[iparams[i]] = pf.nsrc(a)
-    for k in c.keywords:
-        if k.arg:
-            bound[k.arg] = pf.nsrc(k.value)
-    ctx.need('offset' in iparams and 'length' in iparams, f'{AZ}::{sname}.__init__: offset/length parameters renamed')
-    ctx.check(bound.get('offset') == start and bound.get('length') == length, 'R2', f'{where}::stream(offset={start}, length={length})',
-              f'`{pf.nsrc(c)}` binds offset={bound.get("offset")}, length={bound.get("length")}; expected offset={start}, length={length} unchanged', m.path, c.lineno)
-    stored = {}
+    stored: Dict[str, str] = {}  # init parameter -> attribute it is stored in
     for st in _stmts(init):
-        if isinstance(st, ast.Assign) and len(st.targets) == 1 and isinstance(st.targets[0], ast.Attribute) and pf.nsrc(st.targets[0].value) == 'self' and isinstance(st.value, ast.Name):
-            stored[st.value.id] = st.targets[0].attr
-    ctx.need('offset' in stored and 'length' in stored, f'{AZ}::{sname}.__init__: offset/length are not stored on self')
-    f_off, f_len = f'self.{stored["offset"]}', f'self.{stored["length"]}'
-    n = 0
+        tg = st.targets[0] if isinstance(st, ast.Assign) and len(st.targets) == 1 else (st.target if isinstance(st, ast.AnnAssign) else None)
+        val = getattr(st, 'value', None)
+        if isinstance(tg, ast.Attribute) and pf.nsrc(tg.value) == 'self' and isinstance(val, ast.Name) and val.id in iparams:
+            stored[val.id] = tg.attr
+    # the roles come from the SDK call, not from names: the attribute passed as download_blob(offset=...) is the stream's offset, the one
+    # passed as length=... its length; the constructor parameters stored in them are the (offset, length) of the stream
+    dcalls: List[Tuple[str, pf.FuncDef, ast.Call]] = []
+    # `read` is analysed with the private helpers of the stream class inlined (a download opened in an extracted helper is a download of read)
+    rm, rd_inl, inlined = _inline_private(m, sname, 'read') if m.has_func(f'{sname}.read') else (m, None, [])
     for qual, f in m.functions():
-        if not qual.startswith(sname + '.'):
-            continue
-        for dc in pf.calls_in(f):
-            if isinstance(dc.func, ast.Attribute) and dc.func.attr == 'download_blob':
-                n += 1
-                kw = {k.arg: pf.nsrc(k.value) for k in dc.keywords if k.arg}
-                ctx.need(not dc.args and all(k.arg for k in dc.keywords), f'{AZ}::{qual}: download_blob called with positional/star arguments')
-                # which read mode is this call in?
-                guards = [x for x in ast.walk(f) if isinstance(x, ast.If) and any(y is dc for b in x.body for y in ast.walk(b))]
-                guard = pf.nsrc(guards[-1].test) if guards else 'unconditional'
-                cons = f'{AZ}::{qual}::download_blob under `if {guard}`'
-                ok_off = kw.get('offset') == f_off
-                ok_len = kw.get('length') == f_len
-                msg = ''
-                if not ok_off:
-                    msg = f'the download starts at `{kw.get("offset")}`, not at `{f_off}`'
-                elif not ok_len:
-                    msg = (f'the download is opened with offset={f_off} but without length={f_len}: after open_from(url, s, length=L) a `read(n)` with n > L (any n != -1) '
-                           f'returns the bytes s .. s+n-1, i.e. data beyond the requested range, while `read()` on the same stream honours the length')
-                ctx.check(ok_off and ok_len, 'R2', cons, msg, m.path, dc.lineno)
-    ctx.need(n >= 1, f'{AZ}::{sname}: no download_blob call')
-    _offset_length_typestate(ctx, m, sname, stored['offset'], stored['length'])
+        if qual.startswith(sname + '.') and qual.count('.') == 1:
+            if f.name in inlined:
+                still_called = any(isinstance(c.func, ast.Attribute) and c.func.attr == f.name for q2, f2 in m.functions() if q2.startswith(sname + '.') and f2.name != 'read'
+                                   and f2.name not in inlined for c in pf.calls_in(f2, into_nested_defs=True)) or \
+                    any(isinstance(c.func, ast.Attribute) and c.func.attr == f.name and pf.nsrc(c.func.value) == 'self' for c in pf.calls_in(rd_inl, into_nested_defs=True))
+                if not still_called:
+                    continue
+            if f.name == 'read' and rd_inl is not None:
+                f = rd_inl
+            for dc in pf.calls_in(f):
+                if isinstance(dc.func, ast.Attribute) and dc.func.attr == 'download_blob':
+                    ctx.need(not dc.args and all(k.arg for k in dc.keywords), f'{AZ}::{qual}: download_blob called with positional/star arguments')
+                    dcalls.append((qual, f, dc))
+    ctx.need(dcalls, f'{AZ}::{sname}: no download_blob call')
+
+    def role_attr(kwname: str, fallback_param: str) -> str:
+        attrs = {_self_attr(f, next((k.value for k in dc.keywords if k.arg == kwname), None)) for _q, f, dc in dcalls}
+        attrs.discard(None)
+        if len(attrs) == 1:
+            return attrs.pop()  # type: ignore[return-value]
+        ctx.need(not attrs and fallback_param in stored, f'{AZ}::{sname}: the attribute that holds the {kwname} of the range is not identified ({sorted(a for a in attrs if a)})')
+        return stored[fallback_param]
+
+    off_attr, len_attr = role_attr('offset', 'offset'), role_attr('length', 'length')
+    by_attr = {v: k for k, v in stored.items()}
+    ctx.need(off_attr in by_attr and len_attr in by_attr and off_attr != len_attr, f'{AZ}::{sname}.__init__: no constructor parameter is stored in self.{off_attr} / self.{len_attr}')
+    p_off, p_len = by_attr[off_attr], by_attr[len_attr]
+    defaults = dict(zip([a.arg for a in init.args.args][len(init.args.args) - len(init.args.defaults):], init.args.defaults))
+    opt = {}
+    if isinstance(defaults.get(p_len), ast.Constant) and defaults[p_len].value is None:  # type: ignore[union-attr]
+        opt[p_len] = 'the stream then has no length: everything up to the end of the blob is returned'
+    if isinstance(defaults.get(p_off), ast.Constant) and defaults[p_off].value is None:  # type: ignore[union-attr]
+        opt[p_off] = 'the stream then starts at the first byte of the blob'
+    _forwarding(ctx, fn, c, iparams, {p_off: start, p_len: length}, opt, 'R2', f'{where}::stream(offset={start}, length={length})', where, m.path)
+    f_off, f_len = f'self.{off_attr}', f'self.{len_attr}'
+    for qual, f, dc in dcalls:
+        kw = {k.arg: k.value for k in dc.keywords}
+        mode = _read_modes(f, dc)
+        cons = f'{AZ}::{qual}::download_blob' + (f'[{mode}]' if mode else '')
+        msg = ''
+        a_off, a_len = _self_attr(f, kw.get('offset')), _self_attr(f, kw.get('length'))
+        if 'offset' not in kw:
+            msg = f'the download is opened without offset={f_off}: it starts at the first byte of the blob, not at the start of the range'
+        elif a_off != off_attr:
+            ctx.need(a_off is not None, f'{AZ}::{qual}: `{pf.nsrc(dc)}`: the offset passed is not an attribute of the stream; not recognised')
+            msg = f'the download starts at `{pf.nsrc(kw["offset"])}`, not at `{f_off}`'
+        elif 'length' not in kw:
+            msg = (f'the download is opened with offset={f_off} but without length={f_len}: after open_from(url, s, length=L) a `read(n)` with n > L (any n != -1) '
+                   f'returns the bytes s .. s+n-1, i.e. data beyond the requested range, while `read()` on the same stream honours the length')
+        elif a_len != len_attr:
+            ctx.need(a_len is not None, f'{AZ}::{qual}: `{pf.nsrc(dc)}`: the length passed is not an attribute of the stream; not recognised')
+            msg = f'the download is opened with length=`{pf.nsrc(kw["length"])}`, not `{f_len}`'
+        ctx.check(not msg, 'R2', cons, msg, m.path, dc.lineno)
+    _offset_length_typestate(ctx, rm, rd_inl, sname, off_attr, len_attr, inlined)
     ctx.unit('functions', 3)
 
 
-def _offset_length_typestate(ctx: Ctx, m: pf.Module, sname: str, off_attr: str, len_attr: str) -> None:
+def _offset_length_typestate(ctx: Ctx, m: pf.Module, rd: Optional[pf.FuncDef], sname: str, off_attr: str, len_attr: str, inlined: Sequence[str] = ()) -> None:
     """A stream object that keeps (offset, length) of its range and ADVANCES the offset by the bytes it has handed out must not send the
     pair to the service again with the length of the WHOLE range: the end of the download slides behind the range by the bytes consumed.
     Typestate over the fields `read` tests (None / set, unknown splits both ways) plus one bit "offset advanced, length not reduced in
     step"; the calls read(k) / read() are applied in any order until no new state appears; a `download_blob(offset=self.<offset>,
     length=self.<length>)` that is reachable with the bit set is reported with the call history that reaches it."""
-    rd = m.func(f'{sname}.read')
+    ctx.need(rd is not None, f'{AZ}::{sname}.read: not defined')
     where = f'{AZ}::{sname}.read'
     ps = [a.arg for a in rd.args.args]
     ctx.need(len(ps) == 2, f'{where}: signature changed')
@@ -469,7 +650,7 @@ def _offset_length_typestate(ctx: Ctx, m: pf.Module, sname: str, off_attr: str, 
     # other methods must not touch what the typestate tracks
     cls = m.cls(sname)
     for f in cls.body:
-        if isinstance(f, (ast.FunctionDef, ast.AsyncFunctionDef)) and f.name not in ('__init__', 'read', '_wait_closed', 'close'):
+        if isinstance(f, (ast.FunctionDef, ast.AsyncFunctionDef)) and f.name not in ('__init__', 'read', '_wait_closed', 'close') and f.name not in inlined:
             for x in ast.walk(f):
                 tgt = [x.target] if isinstance(x, (ast.AugAssign, ast.AnnAssign)) else (x.targets if isinstance(x, ast.Assign) else [])
                 for t in tgt:
@@ -528,8 +709,8 @@ def _offset_length_typestate(ctx: Ctx, m: pf.Module, sname: str, off_attr: str, 
                     continue
                 for c in pf.node_calls(nd):
                     if isinstance(c.func, ast.Attribute) and c.func.attr == 'download_blob':
-                        kw = {k.arg: pf.nsrc(k.value) for k in c.keywords if k.arg}
-                        if slid and kw.get('offset') == f_off and kw.get('length') == f_len and id(c) not in hits:
+                        kw = {k.arg: k.value for k in c.keywords if k.arg}
+                        if slid and _self_attr(rd, kw.get('offset')) == off_attr and _self_attr(rd, kw.get('length')) == len_attr and id(c) not in hits:
                             hits[id(c)] = (c, history[s0] + [label])
                 branch: Optional[bool] = None
                 split_attr: Optional[Tuple[str, bool]] = None
@@ -577,64 +758,140 @@ def _offset_length_typestate(ctx: Ctx, m: pf.Module, sname: str, off_attr: str, 
     if not hits:
         ctx.ok('R2', cons0, {'tracked': tracked, 'states': len(history)})
     for c, hist in hits.values():
-        guards = [x for x in ast.walk(rd) if isinstance(x, ast.If) and any(y is c for b in x.body for y in ast.walk(b))]
-        guard = pf.nsrc(guards[-1].test) if guards else 'unconditional'
-        ctx.bad('R2', f'{where}::download_blob under `if {guard}`::length follows the advancing offset',
+        mode = _read_modes(rd, c)
+        ctx.bad('R2', f'{where}::download_blob[{mode}]::length follows the advancing offset',
                 f'`{pf.nsrc(c)}` is reachable after `{f_off} += ...` (history: {"; ".join(hist)}): the offset has moved forward by the bytes handed out but `{f_len}` is still the '
                 f'length of the WHOLE range, so the download ends that many bytes behind the range - open_from(url, 10, length=5), read(2), read() returns the bytes 12..16, two of them '
                 f'beyond the range 10..14', m.path, c.lineno)
 
 
 def _local(ctx: Ctx) -> None:
-    m = pf.load(LOC)
+    """LocalAsyncFS._open_from, path by path (abstract values: F = the file opened, T(limit) = TruncatedReadableBinaryIO around F, ? = anything else):
+    every returned stream holds F positioned by exactly one `F.seek(start[, SEEK_SET])`; with a length it is T(length), without one F itself."""
+    m = _load(LOC)
     fn = m.func('LocalAsyncFS._open_from')
     where = f'{LOC}::LocalAsyncFS._open_from'
     url, start, length = _sig(ctx, fn, where)
     g = pf.cfg(fn)
-    rets = [st for st in _stmts(fn) if isinstance(st, ast.Return)]
-    ctx.need(len(rets) == 1 and isinstance(rets[0].value, ast.Call) and len(rets[0].value.args) >= 2 and isinstance(rets[0].value.args[1], ast.Name),
-             f'{where}: expected `return <wrap>(pool, <stream>)`')
-    RET = [n for n in g.nodes if n.ast is rets[0]][0]
-    sv = rets[0].value.args[1].id
-    # seek
-    seeks = [c for c in pf.calls_in(fn) if isinstance(c.func, ast.Attribute) and c.func.attr == 'seek']
-    scons = f'{where}::seek({start})'
-    if not seeks:
-        ctx.bad('R2', scons, f'the file is never positioned at `{start}`: the stream starts at byte 0', m.path, fn.lineno)
-    else:
-        ctx.need(len(seeks) == 1, f'{where}: several seeks')
-        s = seeks[0]
-        args = [pf.nsrc(a) for a in s.args]
-        whence_ok = len(args) == 1 or (len(args) == 2 and args[1] in ('io.SEEK_SET', 'os.SEEK_SET', '0'))
-        ctx.need(len(args) in (1, 2) and not s.keywords and whence_ok, f'{where}: seek call `{pf.nsrc(s)}` not recognised')
-        SN = g.node_of(s)
-        ok = args[0] == start and whence_ok and len(SN) == 1 and g.dominated_by(RET, lambda n: n is SN[0])
-        ctx.check(ok, 'R2', scons, f'`{pf.nsrc(s)}` does not position the file at `{start}` from the beginning on every path', m.path, s.lineno)
-    # truncation on the "length given" paths
     tests = {n.id: _given_label(n.ast, length) for n in g.nodes if n.kind == 'test' and n.ast is not None and length in pf.names_in(n.ast)}
     for nid, lab in tests.items():
         ctx.need(lab is not None, f'{where}: test on `{length}` not recognised')
-    wraps = [st for st in _stmts(fn) if isinstance(st, ast.Assign) and len(st.targets) == 1 and isinstance(st.targets[0], ast.Name) and st.targets[0].id == sv
-             and isinstance(st.value, ast.Call) and pf.dotted(st.value.func) == 'TruncatedReadableBinaryIO']
-    tcons = f'{where}::TruncatedReadableBinaryIO(limit={length})'
-    if not wraps:
-        ctx.bad('R2', tcons, f'the returned stream `{sv}` is never wrapped in TruncatedReadableBinaryIO: a read with a length returns everything up to the end of the file',
-                m.path, fn.lineno)
-    else:
-        ctx.need(len(wraps) == 1, f'{where}: several truncating wrappers')
-        w = wraps[0]
-        wc = w.value
-        lim = [pf.nsrc(k.value) for k in wc.keywords if k.arg == 'limit'] + [pf.nsrc(a) for a in wc.args[1:2]]  # type: ignore[attr-defined]
-        W = [n for n in g.nodes if n.ast is w][0]
+    wrapper = 'TruncatedReadableBinaryIO'
+    winit = m.func(f'{wrapper}.__init__')
+    wparams = [a.arg for a in winit.args.args][1:]
+    ctx.need(len(wparams) == 2, f'{LOC}::{wrapper}.__init__: signature changed')
 
-        def e_ok(val: bool):
-            return lambda a, b, lab: not (a.id in tests and lab in ('T', 'F') and (lab == tests[a.id]) != val)
+    def val(e: ast.AST, env: Dict[str, object]) -> object:
+        if isinstance(e, ast.Await):
+            return val(e.value, env)
+        if isinstance(e, ast.Name):
+            return env.get(e.id, '?')
+        if isinstance(e, ast.Call):
+            name = (pf.dotted(e.func) or '').split('.')[-1]
+            if name == 'cast' and len(e.args) == 2 and not e.keywords:
+                return val(e.args[1], env)
+            if name == 'open' and pf.dotted(e.func) in ('open', 'io.open', 'builtins.open'):
+                return 'F'
+            if name == 'blocking_to_async' and len(e.args) >= 2 and pf.dotted(e.args[1]) in ('open', 'io.open', 'builtins.open'):
+                return 'F'
+            if name == wrapper:
+                b = _bind_args(e, wparams)
+                if b is not None and set(b) == set(wparams) and val(b[wparams[0]], env) == 'F':
+                    return ('T', b[wparams[1]])
+        return '?'
 
-        miss = g.path_avoiding(g.entry, lambda n: n is RET, lambda n: n is W, edge_ok=e_ok(True))
-        extra = g.path_avoiding(g.entry, lambda n: n is W, lambda n: False, edge_ok=e_ok(False))
-        ctx.check(lim == [length] and miss is None and extra is None, 'R2', tcons,
-                  (f'the limit is `{lim}`, not `{length}`' if lim != [length] else
-                   f'with a length there is a path to the return that skips the wrapper' if miss is not None else f'the stream is truncated although no length was given'), m.path, w.lineno)
+    results: List[Tuple[Optional[bool], object, List[ast.Call], ast.Return]] = []
+
+    def walk(n: pf.Node, env: Dict[str, object], seeks: List[ast.Call], given: Optional[bool], seen: Tuple[int, ...]) -> None:
+        ctx.need(len(seen) < 200 and len(results) < 64, f'{where}: too many paths')
+        a = n.ast
+        if n.kind == 'return':
+            ctx.need(isinstance(a, ast.Return) and a.value is not None, f'{where}: returns nothing')
+            rv = a.value.value if isinstance(a.value, ast.Await) else a.value  # type: ignore[union-attr]
+            ctx.need(isinstance(rv, ast.Call), f'{where}: `{n.text()}` is not `<adapter>(pool, <stream>)`')
+            streams = [v for v in (val(x, env) for x in list(rv.args) + [k.value for k in rv.keywords]) if v == 'F' or isinstance(v, tuple)]  # type: ignore[union-attr]
+            ctx.need(len(streams) == 1, f'{where}: `{n.text()}` does not hand exactly one stream over the opened file to the adapter; not recognised')
+            results.append((given, streams[0], seeks, a))  # type: ignore[arg-type]
+            return
+        env2, seeks2 = env, seeks
+        if n.kind == 'stmt' and a is not None:
+            if isinstance(a, (ast.Assign, ast.AnnAssign)) and getattr(a, 'value', None) is not None:
+                v = val(a.value, env)  # type: ignore[arg-type]
+                for t in (a.targets if isinstance(a, ast.Assign) else [a.target]):
+                    if isinstance(t, ast.Name):
+                        env2 = {**env2, t.id: v}
+                    else:
+                        for x in ast.walk(t):
+                            if isinstance(x, ast.Name) and isinstance(x.ctx, ast.Store):
+                                env2 = {**env2, x.id: '?'}
+            elif isinstance(a, ast.AugAssign) and isinstance(a.target, ast.Name):
+                env2 = {**env2, a.target.id: '?'}
+            for c in pf.node_calls(n):
+                if isinstance(c.func, ast.Attribute) and c.func.attr == 'seek':
+                    recv = val(c.func.value, env)
+                    ctx.need(recv == 'F', f'{where}: `{pf.nsrc(c)}` seeks something that is not the file just opened; not recognised')
+                    seeks2 = seeks2 + [c]
+        elif n.kind in ('loop', 'with') and a is not None:
+            hdr = [a.target] if isinstance(a, (ast.For, ast.AsyncFor)) else [it.optional_vars for it in getattr(a, 'items', []) if it.optional_vars is not None]
+            for h in hdr:
+                for x in ast.walk(h):
+                    if isinstance(x, ast.Name):
+                        env2 = {**env2, x.id: '?'}
+        for nxt, lab in n.succ:
+            if lab == 'exc' or nxt is g.raise_exit or nxt.id in seen or nxt.kind == 'raise':
+                continue
+            g2 = given
+            if n.id in tests and lab in ('T', 'F'):
+                v2 = (lab == tests[n.id])
+                if given is not None and given != v2:
+                    continue
+                g2 = v2
+            walk(nxt, env2, seeks2, g2, seen + (n.id,))
+
+    walk(g.entry, {}, [], None, ())
+    ctx.need(results, f'{where}: no path returns a stream')
+    ctx.unit('local_open_paths', len(results))
+    scons = f'{where}::seek({start})'
+    tcons = f'{where}::{wrapper}(limit={length})'
+    seek_bad: List[Tuple[str, int]] = []
+    trunc_bad: List[Tuple[str, int]] = []
+    seen_case = {True: False, False: False}
+    for given, stream, seeks, ret in results:
+        # --- positioned at `start`, from the beginning, exactly once
+        if not seeks:
+            seek_bad.append((f'on the path to `{pf.nsrc(ret)[:70]}` the file is never positioned at `{start}`: the stream starts at byte 0', ret.lineno))
+        else:
+            ctx.need(len(seeks) == 1, f'{where}: several seeks on one path')
+            sk = seeks[0]
+            ctx.need(not sk.keywords and len(sk.args) in (1, 2) and not any(isinstance(x, ast.Starred) for x in sk.args), f'{where}: seek call `{pf.nsrc(sk)}` not recognised')
+            whence = pf.nsrc(pf.expand_locals(fn, sk.args[1])) if len(sk.args) == 2 else '0'
+            ctx.need(whence in ('io.SEEK_SET', 'os.SEEK_SET', 'SEEK_SET', '0', 'io.SEEK_CUR', 'os.SEEK_CUR', 'SEEK_CUR', '1', 'io.SEEK_END', 'os.SEEK_END', 'SEEK_END', '2'),
+                     f'{where}: whence of `{pf.nsrc(sk)}` not recognised')
+            pos = _unchanged(fn, sk.args[0], start)
+            if whence in ('io.SEEK_END', 'os.SEEK_END', 'SEEK_END', '2'):
+                seek_bad.append((f'`{pf.nsrc(sk)}` positions the file relative to its END, not at `{start}` from the beginning', sk.lineno))
+            elif pos is False:
+                seek_bad.append((f'`{pf.nsrc(sk)}` does not position the file at `{start}` from the beginning', sk.lineno))
+            else:
+                # a freshly opened file is at 0: SEEK_CUR and SEEK_SET agree
+                ctx.need(pos is True, f'{where}: position of `{pf.nsrc(sk)}` not resolved to `{start}`')
+        # --- truncated to `length` exactly when a length is given
+        for case in ([given] if given is not None else [False, True]):
+            seen_case[case] = True
+            if case and stream == 'F':
+                trunc_bad.append((f'with a length `{pf.nsrc(ret)[:70]}` returns the file itself, not wrapped in {wrapper}: a read with a length returns everything up to the end of '
+                                  f'the file', ret.lineno))
+            elif case:
+                lim = _unchanged(fn, stream[1], length)  # type: ignore[index]
+                if lim is False:
+                    trunc_bad.append((f'the limit is `{pf.nsrc(stream[1])}`, not `{length}`', ret.lineno))  # type: ignore[index]
+                else:
+                    ctx.need(lim is True, f'{where}: limit `{pf.nsrc(stream[1])}` of the truncating wrapper not resolved to `{length}`')  # type: ignore[index]
+            elif stream != 'F':
+                trunc_bad.append((f'the stream is truncated (`{pf.nsrc(stream[1])}`) although no length was given', ret.lineno))  # type: ignore[index]
+    ctx.need(seen_case[True] and seen_case[False], f'{where}: not both cases (with / without a length) return a stream')
+    ctx.check(not seek_bad, 'R2', scons, seek_bad[0][0] if seek_bad else '', m.path, seek_bad[0][1] if seek_bad else fn.lineno)
+    ctx.check(not trunc_bad, 'R2', tcons, trunc_bad[0][0] if trunc_bad else '', m.path, trunc_bad[0][1] if trunc_bad else fn.lineno)
     _truncating_wrapper(ctx, m)
     ctx.unit('functions', 3)
 
@@ -673,18 +930,20 @@ def _is_memoryview_of(fn: pf.FuncDef, e: ast.AST, depth: int = 3) -> Optional[as
     return None
 
 
-def _cap_verdict(e: ast.AST, remaining: 'linform.Lin', env: Dict[str, ast.AST]) -> Tuple[Optional[bool], str]:
+def _cap_verdict(e: ast.AST, remaining: 'linform.Lin', env: Dict[str, ast.AST], known: Optional[Sequence[str]] = None) -> Tuple[Optional[bool], str]:
     """Is the byte count `e` at most `remaining` for every state?  (True, '') / (False, why) / (None, why not decided).
-    `min(a, b)` is capped when one operand is; anything else must equal `remaining` in linear normal form."""
+    `min(a, b)` is capped when one operand is; anything else must equal `remaining` in linear normal form.  `known` = the symbols whose meaning
+    the caller knows (parameters, the fields of `remaining`): a count that depends on anything else is not decided - a FAIL needs a count the
+    analysis resolved completely."""
     if isinstance(e, ast.Call) and pf.dotted(e.func) == 'min' and e.args and not e.keywords and not any(isinstance(a, ast.Starred) for a in e.args):
-        sub = [_cap_verdict(a, remaining, env) for a in e.args]
+        sub = [_cap_verdict(a, remaining, env, known) for a in e.args]
         if any(v is True for v, _ in sub):
             return True, ''
         if all(v is False for v, _ in sub):
             return False, f'no operand of `{pf.nsrc(e)}` is `{remaining!r}`'
         return None, f'`{pf.nsrc(e)}` not decided'
     if isinstance(e, ast.IfExp):
-        sub = [_cap_verdict(a, remaining, env) for a in (e.body, e.orelse)]
+        sub = [_cap_verdict(a, remaining, env, known) for a in (e.body, e.orelse)]
         if all(v is True for v, _ in sub):
             return True, ''
         if any(v is False for v, _ in sub):
@@ -698,25 +957,41 @@ def _cap_verdict(e: ast.AST, remaining: 'linform.Lin', env: Dict[str, ast.AST]) 
         return True, ''
     if d.is_const() and d.const < 0:
         return True, ''
+    if known is not None:
+        foreign = [x for x in d.symbols() if x not in known and x not in remaining.symbols()]
+        if foreign:
+            return None, f'`{pf.nsrc(e)}` depends on {foreign}, which the analysis did not resolve'
     return False, f'`{pf.nsrc(e)}` = {remaining!r} + ({d!r})'
 
 
 def _truncating_wrapper(ctx: Ctx, m: pf.Module) -> None:
-    """TruncatedReadableBinaryIO(bio, limit): EVERY method that takes bytes out of `self.bio` asks for at most limit - offset bytes
+    """TruncatedReadableBinaryIO(bio, limit): EVERY method that takes bytes out of the wrapped file asks for at most limit - offset bytes
     (what is LEFT of the range, not the length of the whole range) and advances `offset` by what it obtained.  The blocking stream
     adapter picks the reader method by name (read, and readinto when the file object has one), so a second reader method is a second way
-    out of the range."""
+    out of the range.  The three fields are identified by what the constructor stores in them (1st parameter: the wrapped file, 2nd: the
+    limit, the integer constant: the offset), not by their names."""
     cname = 'TruncatedReadableBinaryIO'
     twhere = f'{LOC}::{cname}'
     cls = m.cls(cname)
     init = m.func(f'{cname}.__init__')
-    ia = {}
+    iparams = [a.arg for a in init.args.args][1:]
+    ctx.need(len(iparams) == 2 and not init.args.kwonlyargs and not init.args.vararg and not init.args.kwarg, f'{twhere}.__init__: signature changed: {iparams}')
+    ia: Dict[str, ast.AST] = {}
     for st in _stmts(init):
-        if isinstance(st, ast.Assign) and len(st.targets) == 1 and isinstance(st.targets[0], ast.Attribute) and pf.nsrc(st.targets[0].value) == 'self':
-            ia[st.targets[0].attr] = pf.nsrc(st.value)
-    ctx.check(ia.get('offset') == '0' and ia.get('limit') == 'limit', 'R2', f'{twhere}.__init__', f'starts with offset={ia.get("offset")}, limit={ia.get("limit")}; expected 0 and the given limit',
-              m.path, init.lineno)
-    ctx.need(ia.get('bio') == 'bio', f'{twhere}.__init__: the wrapped file is not stored as self.bio')
+        tg = st.targets[0] if isinstance(st, ast.Assign) and len(st.targets) == 1 else (st.target if isinstance(st, ast.AnnAssign) else None)
+        if isinstance(tg, ast.Attribute) and pf.nsrc(tg.value) == 'self' and getattr(st, 'value', None) is not None:
+            ctx.need(tg.attr not in ia, f'{twhere}.__init__: self.{tg.attr} assigned twice')
+            ia[tg.attr] = st.value  # type: ignore[union-attr]
+    bio_attrs = [k for k, v in ia.items() if isinstance(v, ast.Name) and v.id == iparams[0]]
+    ctx.need(len(bio_attrs) == 1, f'{twhere}.__init__: the wrapped file is not stored in exactly one field')
+    lim_attrs = [k for k, v in ia.items() if iparams[1] in pf.names_in(v)]
+    off_attrs = [k for k, v in ia.items() if isinstance(v, ast.Constant) and isinstance(v.value, int) and not isinstance(v.value, bool)]
+    ctx.need(len(lim_attrs) == 1 and len(off_attrs) == 1, f'{twhere}.__init__: the fields holding the limit / the offset are not identified ({lim_attrs} / {off_attrs})')
+    A_bio, A_lim, A_off = f'self.{bio_attrs[0]}', f'self.{lim_attrs[0]}', f'self.{off_attrs[0]}'
+    lim_ok = _unchanged(init, ia[lim_attrs[0]], iparams[1])
+    ctx.need(lim_ok is not None, f'{twhere}.__init__: `{A_lim} = {pf.nsrc(ia[lim_attrs[0]])}` not resolved')
+    off0 = ia[off_attrs[0]].value  # type: ignore[attr-defined]
+    ctx.check(off0 == 0 and lim_ok, 'R2', f'{twhere}.__init__', f'starts with {A_off}={off0}, {A_lim}={pf.nsrc(ia[lim_attrs[0]])}; expected 0 and the given limit', m.path, init.lineno)
     methods = [st for st in cls.body if isinstance(st, (ast.FunctionDef, ast.AsyncFunctionDef))]
     for f in methods:
         ctx.need(f.name not in ('__getattr__', '__getattribute__'), f'{twhere}.{f.name}: attribute forwarding makes every reader method of the wrapped file reachable; not analysed')
@@ -725,22 +1000,31 @@ def _truncating_wrapper(ctx: Ctx, m: pf.Module) -> None:
             v = st.value
             ctx.need(v is None or not any(isinstance(x, ast.Attribute) and x.attr in _SIZE_READERS + _INTO_READERS + _UNBOUNDED_READERS for x in ast.walk(v)),
                      f'{twhere}: class-level alias of a reader method `{pf.nsrc(st)}` not analysed')
-    remaining = linform.sym('self.limit') - linform.sym('self.offset')
+    remaining = linform.sym(A_lim) - linform.sym(A_off)
     n_readers = 0
-    for rd in methods:
-        if rd.name == '__init__':
+    for rd0 in methods:
+        if rd0.name == '__init__':
             continue
-        calls = [c for c in pf.calls_in(rd, into_nested_defs=True) if isinstance(c.func, ast.Attribute) and pf.nsrc(c.func.value) == 'self.bio'
+
+        def is_bio(e: ast.AST, f: pf.FuncDef) -> bool:
+            return pf.nsrc(pf.expand_locals(f, e)) == A_bio
+
+        if not any(isinstance(x, ast.Attribute) and x.attr in _SIZE_READERS + _INTO_READERS + _UNBOUNDED_READERS for x in ast.walk(rd0)) \
+                and not any(isinstance(c.func, ast.Attribute) and pf.nsrc(c.func.value) == 'self' for c in pf.calls_in(rd0, into_nested_defs=True)):
+            continue
+        # private helpers of the wrapper are analysed inlined
+        rd = _inline_private(m, cname, rd0.name)[1]
+        calls = [c for c in pf.calls_in(rd, into_nested_defs=True) if isinstance(c.func, ast.Attribute) and is_bio(c.func.value, rd)
                  and c.func.attr in _SIZE_READERS + _INTO_READERS + _UNBOUNDED_READERS]
         # a bound reader taken as a value (`f = self.bio.readinto`) is called out of sight
-        taken = [x for x in ast.walk(rd) if isinstance(x, ast.Attribute) and pf.nsrc(x.value) == 'self.bio' and x.attr in _SIZE_READERS + _INTO_READERS + _UNBOUNDED_READERS
+        taken = [x for x in ast.walk(rd) if isinstance(x, ast.Attribute) and is_bio(x.value, rd) and x.attr in _SIZE_READERS + _INTO_READERS + _UNBOUNDED_READERS
                  and not any(c.func is x for c in calls)]
         ctx.need(not taken, f'{twhere}.{rd.name}: `{pf.nsrc(taken[0]) if taken else ""}` is used as a value; not analysed')
         if not calls:
             continue
         n_readers += 1
         mwhere = f'{twhere}.{rd.name}'
-        ctx.need(len(calls) == 1, f'{mwhere}: expected one read from self.bio, found {len(calls)}')
+        ctx.need(len(calls) == 1, f'{mwhere}: expected one read from {A_bio}, found {len(calls)}')
         call = calls[0]
         kind = call.func.attr  # type: ignore[attr-defined]
         rg = pf.cfg(rd)
@@ -748,13 +1032,14 @@ def _truncating_wrapper(ctx: Ctx, m: pf.Module) -> None:
         ctx.need(len(cn) == 1, f'{mwhere}: read node')
         RD = cn[0]
         ctx.need(not call.keywords and not any(isinstance(a, ast.Starred) for a in call.args), f'{mwhere}: `{pf.nsrc(call)}` keyword/star arguments')
+        params = [a.arg for a in rd.args.args][1:]
+        known = params + [f'len({x})' for x in params]
         cap_cons = f'{mwhere}::capped by limit - offset'
         beyond = ('after k bytes of the range have been handed out (offset = k > 0) a call can return up to k bytes of the file that lie beyond the range, '
                   'e.g. open_from(url, s, length=L): readexactly(4) then readexactly(L) yields L bytes, the last 4 from behind the range, instead of UnexpectedEOFError')
         if kind in _UNBOUNDED_READERS:
             ctx.bad('R2', cap_cons, f'`{pf.nsrc(call)}` reads to the end of the FILE: the limit is not applied at all', m.path, call.lineno)
         elif kind in _SIZE_READERS:
-            params = [a.arg for a in rd.args.args][1:]
             nparam = params[0] if params else None
             if not call.args or (isinstance(call.args[0], ast.Constant) and call.args[0].value in (-1, None)) or \
                     (isinstance(call.args[0], ast.UnaryOp) and pf.nsrc(call.args[0]) == '-1'):
@@ -766,24 +1051,27 @@ def _truncating_wrapper(ctx: Ctx, m: pf.Module) -> None:
                 ctx.need(not other, f'{mwhere}: `{av}` is bound in a way that is not recognised')
                 bad_defs, undecided = [], []
                 for d in defs:
-                    v, why = _cap_verdict(pf.expand_locals(rd, d.value), remaining, {})
+                    # the count being defined may mention its own previous value (`n = min(remaining, n)`): only OTHER locals are expanded
+                    v, why = _cap_verdict(_expand_except(rd, d.value, av), remaining, {}, known)
                     if v is False:
                         bad_defs.append((d, why))
                     elif v is None:
                         undecided.append(why)
                 capped = bool(defs) and rg.dominated_by(RD, lambda n: any(n.ast is d for d in defs))
                 if bad_defs:
-                    ctx.bad('R2', cap_cons, f'`{pf.nsrc(bad_defs[0][0])}` is not `self.limit - self.offset` or `min(self.limit - self.offset, {nparam})` ({bad_defs[0][1]}): '
+                    ctx.bad('R2', cap_cons, f'`{pf.nsrc(bad_defs[0][0])}` is not `{A_lim} - {A_off}` or `min({A_lim} - {A_off}, {nparam})` ({bad_defs[0][1]}): '
                             f'the read can pass the end of the range - {beyond}', m.path, bad_defs[0][0].lineno)
                 elif not capped:
+                    # on a path without a definition the count is the caller's argument itself
+                    ctx.need(av in params, f'{mwhere}: `{av}` is not defined on every path to `{pf.nsrc(call)}`; not recognised')
                     ctx.bad('R2', cap_cons, f'there is a path to `{pf.nsrc(call)}` on which `{av}` is not capped by the remaining bytes: {beyond}', m.path, rd.lineno)
                 else:
                     ctx.need(not undecided, f'{mwhere}: {undecided[0] if undecided else ""}')
                     ctx.ok('R2', cap_cons, {'count': av, 'definitions': [pf.nsrc(d) for d in defs]})
             else:
-                v, why = _cap_verdict(pf.expand_locals(rd, call.args[0]), remaining, {})
+                v, why = _cap_verdict(pf.expand_locals(rd, call.args[0]), remaining, {}, known)
                 ctx.need(v is not None, f'{mwhere}: {why}')
-                ctx.check(bool(v), 'R2', cap_cons, f'`{pf.nsrc(call)}`: the count is not capped by `self.limit - self.offset` ({why}): {beyond}', m.path, call.lineno)
+                ctx.check(bool(v), 'R2', cap_cons, f'`{pf.nsrc(call)}`: the count is not capped by `{A_lim} - {A_off}` ({why}): {beyond}', m.path, call.lineno)
         else:
             ctx.need(len(call.args) == 1, f'{mwhere}: `{pf.nsrc(call)}` not recognised')
             a0 = call.args[0]
@@ -800,10 +1088,10 @@ def _truncating_wrapper(ctx: Ctx, m: pf.Module) -> None:
                     ctx.bad('R2', cap_cons, f'`{pf.nsrc(call)}` fills the whole destination buffer: the limit is not applied - {beyond}', m.path, call.lineno)
                 else:
                     up = pf.expand_locals(rd, sl.upper)
-                    v, why = _cap_verdict(up, remaining, {})
+                    v, why = _cap_verdict(up, remaining, {}, known)
                     ctx.need(v is not None, f'{mwhere}: {why}')
                     ctx.check(bool(v), 'R2', cap_cons,
-                              f'`{pf.nsrc(call)}` clips the destination buffer to `{pf.nsrc(sl.upper)}` bytes, not to what is LEFT of the range, `self.limit - self.offset` ({why}): {beyond}',
+                              f'`{pf.nsrc(call)}` clips the destination buffer to `{pf.nsrc(sl.upper)}` bytes, not to what is LEFT of the range, `{A_lim} - {A_off}` ({why}): {beyond}',
                               m.path, call.lineno, detail={'clip': pf.nsrc(up)})
             else:
                 is_param = isinstance(a0, ast.Name) and isinstance(pf.single_def(rd, a0.id), ast.arg)
@@ -817,30 +1105,83 @@ def _truncating_wrapper(ctx: Ctx, m: pf.Module) -> None:
         bv = res[0].targets[0].id  # type: ignore[attr-defined]
         ctx.need(len(pf.assignments(rd).get(bv, [])) == 1, f'{mwhere}: `{bv}` is rebound')
         amount = bv if kind in _INTO_READERS else f'len({bv})'
-        adv = [st for st in _stmts(rd) if isinstance(st, ast.AugAssign) and pf.nsrc(st.target) == 'self.offset' and isinstance(st.op, ast.Add)]
-        sets = [st for st in _stmts(rd) if isinstance(st, ast.Assign) and any(pf.nsrc(t) == 'self.offset' for t in st.targets)]
+        adv = [st for st in _stmts(rd) if isinstance(st, ast.AugAssign) and pf.nsrc(st.target) == A_off and isinstance(st.op, ast.Add)]
+        sets = [st for st in _stmts(rd) if (isinstance(st, ast.Assign) and any(pf.nsrc(t) == A_off for t in st.targets))
+                or (isinstance(st, ast.AugAssign) and pf.nsrc(st.target) == A_off and st not in adv)]
         ctx.need(not sets, f'{mwhere}: `{pf.nsrc(sets[0]) if sets else ""}` not recognised')
         rrets = [n for n in rg.nodes if n.kind == 'return' and n.id in rg.reachable_from(RD)]
         ctx.need(rrets, f'{mwhere}: no return after the read')
-        ok = len(adv) == 1 and pf.nsrc(adv[0].value) == amount and all(rg.dominated_by(r, lambda n: n.ast is adv[0]) for r in rrets) \
-            and all(pf.nsrc(r.ast.value) == bv for r in rrets if r.ast is not None and getattr(r.ast, 'value', None) is not None)  # type: ignore[union-attr]
-        ctx.check(ok, 'R2', adv_cons, f'`self.offset` is not advanced by {amount} before `{rrets[0].text()}`: later reads pass the limit', m.path, rd.lineno)
-    ctx.need(n_readers >= 1, f'{twhere}: no method reads from self.bio')
+        # what is returned is what was read (anything else is a different method contract: not analysed)
+        for r in rrets:
+            rv = getattr(r.ast, 'value', None)
+            ctx.need(rv is None or _names(rd, rv, bv), f'{mwhere}: `{r.text()}` does not return the block read; not recognised')
+        out_of_sight = [c for c in pf.calls_in(rd, into_nested_defs=True) if isinstance(c.func, ast.Attribute) and pf.nsrc(c.func.value) == 'self']
+        msg = ''
+        if not adv:
+            ctx.need(not out_of_sight, f'{mwhere}: `{A_off}` is not advanced here and `{pf.nsrc(out_of_sight[0]) if out_of_sight else ""}` may do it; not analysed')
+            msg = f'`{A_off}` is never advanced by {amount}'
+        else:
+            ctx.need(len(adv) == 1, f'{mwhere}: several advances of `{A_off}`')
+            try:
+                dd = linform.lin(_expand_except(rd, adv[0].value, bv)) - linform.sym(amount)
+            except AnalysisError as ex:
+                raise AnalysisError(f'{mwhere}: `{pf.nsrc(adv[0])}` not linear ({ex})')
+            if dd != linform.const(0):
+                foreign = [x for x in dd.symbols() if x not in known and x != amount]
+                ctx.need(not foreign, f'{mwhere}: `{pf.nsrc(adv[0])}` depends on {foreign}, which the analysis did not resolve')
+                msg = f'`{pf.nsrc(adv[0])}` advances by `{pf.nsrc(adv[0].value)}`, not by the {amount} bytes obtained'
+            elif not all(rg.dominated_by(r, lambda n: n.ast is adv[0]) for r in rrets):
+                msg = f'there is a path from the read to `{rrets[0].text()}` that skips `{pf.nsrc(adv[0])}`'
+        ctx.check(not msg, 'R2', adv_cons, f'{msg}: later reads pass the limit', m.path, rd.lineno)
+    ctx.need(n_readers >= 1, f'{twhere}: no method reads from {A_bio}')
+
+
+def _names(fn: pf.FuncDef, e: ast.AST, name: str, depth: int = 4) -> bool:
+    """`e` is the local `name` (through plain renamings `x = name` and `bytes(name)`)."""
+    if depth <= 0:
+        return False
+    if isinstance(e, ast.Call) and pf.dotted(e.func) == 'bytes' and len(e.args) == 1 and not e.keywords:
+        return _names(fn, e.args[0], name, depth - 1)
+    if isinstance(e, ast.Name):
+        if e.id == name:
+            return True
+        d = pf.single_def(fn, e.id)
+        return isinstance(d, ast.expr) and _names(fn, d, name, depth - 1)
+    return False
+
+
+def _expand_except(fn: pf.FuncDef, e: ast.AST, keep: str) -> ast.AST:
+    """pf.expand_locals, but the name `keep` stays as it is."""
+    import copy
+
+    class S(ast.NodeTransformer):
+        def visit_Name(self, node: ast.Name):
+            if node.id == keep or not isinstance(node.ctx, ast.Load):
+                return node
+            x = pf.expand_locals(fn, node)
+            return copy.deepcopy(x) if x is not node else node
+
+        def visit_Lambda(self, node):
+            return node
+    return S().visit(copy.deepcopy(e))
 
 
 def _router(ctx: Ctx) -> None:
-    m = pf.load(RT)
+    m = _load(RT)
     fn = m.func('RouterAsyncFS._open_from')
     where = f'{RT}::RouterAsyncFS._open_from'
     url, start, length = _sig(ctx, fn, where)
     rets = [st for st in _stmts(fn) if isinstance(st, ast.Return)]
-    ctx.need(len(rets) == 1, f'{where}: expected one return')
-    c = rets[0].value.value if isinstance(rets[0].value, ast.Await) else rets[0].value
+    ctx.need(len(rets) == 1 and rets[0].value is not None, f'{where}: expected one return')
+    c = pf.resolve_expr(fn, rets[0].value)
+    c = c.value if isinstance(c, ast.Await) else c
     ctx.need(isinstance(c, ast.Call) and isinstance(c.func, ast.Attribute) and c.func.attr in ('open_from', '_open_from'), f'{where}: does not delegate to open_from')
-    args = [pf.nsrc(a) for a in c.args]
-    kw = {k.arg: pf.nsrc(k.value) for k in c.keywords}
-    ctx.check(args == [url, start] and kw == {'length': length}, 'R2', f'{where}::delegates unchanged', f'`{pf.nsrc(c)}` does not forward ({url}, {start}, length={length}) unchanged',
-              m.path, c.lineno)
+    decl = _load(FS).func('AsyncFS.open_from')
+    dparams = [a.arg for a in decl.args.args][1:] + [a.arg for a in decl.args.kwonlyargs]
+    ctx.need(len(dparams) == 3, f'{FS}::AsyncFS.open_from: signature changed')
+    ctx.need(len(c.args) <= 2, f'{where}: `{pf.nsrc(c)}` passes the keyword-only length positionally; not recognised')
+    _forwarding(ctx, fn, c, dparams, dict(zip(dparams, (url, start, length))), {dparams[2]: 'the back end then reads to the end of the object'}, 'R2',
+                f'{where}::delegates unchanged', where, m.path)
 
 
 # ------------------------------------------------------------------------------------------------
@@ -848,15 +1189,115 @@ def _router(ctx: Ctx) -> None:
 # ------------------------------------------------------------------------------------------------
 
 def _with_call(fn: pf.FuncDef, attr: str) -> Optional[Tuple[ast.Call, Optional[str], ast.AST]]:
+    """`async with await X.<attr>(...) as f` - also with the awaited call bound to a local first (`s = await X.<attr>(...)`, `async with s as f`)."""
     for st in _stmts(fn):
         if isinstance(st, ast.AsyncWith) and len(st.items) == 1:
             e = st.items[0].context_expr
+            if isinstance(e, ast.Name):
+                d = pf.single_def(fn, e.id)
+                if isinstance(d, ast.expr):
+                    e = d
             if isinstance(e, ast.Await):
                 e = e.value
             if isinstance(e, ast.Call) and isinstance(e.func, ast.Attribute) and e.func.attr == attr:
                 v = st.items[0].optional_vars
                 return e, (v.id if isinstance(v, ast.Name) else None), st
     return None
+
+
+def _flag_paths(ctx: Ctx, fn: pf.FuncDef, where: str, flag: str, goal: ast.AST, exprs: List[Optional[ast.AST]], params: List[str]
+                ) -> List[Tuple[Optional[bool], List[Optional['linform.Lin']], str]]:
+    """Integer locals along every CFG path from the entry of `fn` to the statement holding `goal`, as linear forms over the parameters and the
+    0/1 indicator INCL of the boolean `flag` (abstract case split: a test of the flag's truthiness fixes INCL on that branch; `bool(flag)`,
+    `int(flag)`, `flag` as a summand and `1 if flag else 0` are INCL).  Returns per path (value of the flag or None, the linear forms of
+    `exprs` there, the tests passed)."""
+    g = pf.cfg(fn)
+    gn = g.node_of(goal)
+    ctx.need(len(gn) == 1, f'{where}: statement of `{pf.nsrc(goal)[:60]}` not found')
+    GOAL = gn[0]
+    out: List[Tuple[Optional[bool], List[Optional[linform.Lin]], str]] = []
+
+    class _Incl(ast.NodeTransformer):
+        def visit_IfExp(self, node):  # noqa: N802
+            self.generic_visit(node)
+            tv = c23norm.truth_of_name(node.test, flag)
+            if tv is not None and {pf.nsrc(node.body), pf.nsrc(node.orelse)} == {'1', '0'}:
+                one_when_true = pf.nsrc(node.body) == '1'
+                if one_when_true == tv:
+                    return ast.Name('INCL', ast.Load())
+                return ast.BinOp(left=ast.Constant(1), op=ast.Sub(), right=ast.Name('INCL', ast.Load()))
+            return node
+
+    def lin_of(e: ast.AST, env: Dict[str, object], incl: Optional[bool]) -> linform.Lin:
+        ind = linform.sym('INCL') if incl is None else linform.const(int(incl))
+        env2 = {**env, f'bool({flag})': ind, f'int({flag})': ind, flag: ind, 'INCL': ind}
+        x = _Incl().visit(ast.parse(pf.nsrc(e), mode='eval').body)
+        l = linform.lin(x, env2)  # type: ignore[arg-type]
+        unresolved = [t for t in l.symbols() if t not in params and t != 'INCL']
+        if unresolved:
+            raise AnalysisError(f'depends on {unresolved}, which the analysis did not resolve to the parameters')
+        return l
+
+    def walk(n: pf.Node, env: Dict[str, object], incl: Optional[bool], seen: Tuple[int, ...]) -> None:
+        ctx.need(len(seen) < 200 and len(out) < 64, f'{where}: too many paths')
+        if n is GOAL:
+            vals: List[Optional[linform.Lin]] = []
+            for e in exprs:
+                if e is None:
+                    vals.append(None)
+                    continue
+                try:
+                    vals.append(lin_of(e, env, incl))
+                except AnalysisError as ex:
+                    raise AnalysisError(f'{where}: `{pf.nsrc(e)}` {ex}')
+            out.append((incl, vals, ' / '.join(g.nodes[i].text() for i in seen if g.nodes[i].kind == 'test')))
+            return
+        a = n.ast
+        env2 = env
+        if n.kind == 'stmt' and a is not None:
+            tgts: List[ast.AST] = a.targets if isinstance(a, ast.Assign) else ([a.target] if isinstance(a, (ast.AnnAssign, ast.AugAssign)) else [])  # type: ignore[assignment]
+            for t in tgts:
+                val = getattr(a, 'value', None)
+                if isinstance(t, ast.Name) and val is not None:
+                    try:
+                        if isinstance(a, ast.AugAssign):
+                            ctx.need(isinstance(a.op, (ast.Add, ast.Sub)), f'{where}: `{pf.nsrc(a)}` not recognised')
+                            cur = lin_of(ast.Name(t.id, ast.Load()), env, incl)
+                            rhs = lin_of(val, env, incl)
+                            new = cur + rhs if isinstance(a.op, ast.Add) else cur - rhs
+                        else:
+                            new = lin_of(val, env, incl)
+                        env2 = {**env2, t.id: new}
+                    except AnalysisError:
+                        env2 = {**env2, t.id: ast.Name(f'{t.id}?', ast.Load())}
+                else:
+                    for x in ast.walk(t):
+                        if isinstance(x, ast.Name) and isinstance(x.ctx, ast.Store):
+                            env2 = {**env2, x.id: ast.Name(f'{x.id}?', ast.Load())}
+        elif n.kind in ('loop', 'with') and a is not None:
+            hdr = [a.target] if isinstance(a, (ast.For, ast.AsyncFor)) else [it.optional_vars for it in getattr(a, 'items', []) if it.optional_vars is not None]
+            for h in hdr:
+                for x in ast.walk(h):
+                    if isinstance(x, ast.Name):
+                        env2 = {**env2, x.id: ast.Name(f'{x.id}?', ast.Load())}
+        tv: Optional[bool] = None
+        if n.kind == 'test' and a is not None and flag in pf.names_in(a):
+            tv = c23norm.truth_of_name(a, flag)
+            ctx.need(tv is not None, f'{where}: test `{pf.nsrc(a)}` on `{flag}` not recognised')
+        for nxt, lab in n.succ:
+            if lab == 'exc' or nxt is g.raise_exit or nxt.id in seen:
+                continue
+            incl2 = incl
+            if tv is not None and lab in ('T', 'F'):
+                v = (lab == 'T') == tv
+                if incl is not None and incl != v:
+                    continue
+                incl2 = v
+            walk(nxt, env2, incl2, seen + (n.id,))
+
+    walk(g.entry, {}, None, ())
+    ctx.need(out, f'{where}: no path reaches `{pf.nsrc(goal)[:60]}`')
+    return out
 
 
 _READ_METHODS = _SIZE_READERS + _INTO_READERS
@@ -881,14 +1322,14 @@ def _is_eof_raise(st: ast.stmt) -> bool:
     return isinstance(st, ast.Raise) and st.exc is not None and (pf.dotted(st.exc.func if isinstance(st.exc, ast.Call) else st.exc) or '').split('.')[-1] == 'UnexpectedEOFError'
 
 
-def _exact_read_loops(ctx: Ctx, mm: pf.Module, qual: str) -> None:
+def _exact_read_loops(ctx: Ctx, mm: pf.Module, qual: str, f: Optional[pf.FuncDef] = None) -> None:
     """A blocking `readexactly(n)` built from loops over an at-most reader: every value-returning exit lies behind ONE loop that
       * continues exactly while bytes are outstanding (O > 0; O = the count-down variable, or n - <count-up variable>),
       * asks the file for at most O bytes (`read(k)`: k <= O; `readinto(view[a:b])`: capacity <= O and a = the bytes already stored),
       * counts what it obtained (len(block) / the count readinto returns) into O,
       * raises UnexpectedEOFError when the file returns nothing, and is left in no other way.
     Decided per loop in linear normal form; unrecognised loop shapes are declined."""
-    f = mm.func(qual)
+    f = f if f is not None else mm.func(qual)
     where = f'{mm.rel}::{qual}'
     ctx.need(len(f.args.args) == 2, f'{where}: signature changed')
     nparam = f.args.args[1].arg
@@ -918,13 +1359,26 @@ def _exact_read_loops(ctx: Ctx, mm: pf.Module, qual: str) -> None:
         amount = rv if kind in _INTO_READERS else f'len({rv})'
         # --- progress: the outstanding count O
         augs = [st for st in lp.body if isinstance(st, ast.AugAssign) and isinstance(st.target, ast.Name) and isinstance(st.op, (ast.Add, ast.Sub))]
-        prog = [st for st in augs if pf.nsrc(st.value) == amount]
+        def counts_amount(st: ast.AugAssign) -> bool:
+            try:
+                return linform.lin(_expand_except(f, st.value, rv)) == linform.sym(amount)
+            except AnalysisError:
+                return False
+        prog = [st for st in augs if counts_amount(st)]
         problems: List[str] = []
         line = lp.lineno
         if len(prog) != 1:
             other = [st for st in ast.walk(lp) if isinstance(st, (ast.AugAssign, ast.Assign)) and st not in prog and st is not res[0]
                      and any(isinstance(t, ast.Name) and t.id in pf.names_in(lp.test) for t in ([st.target] if isinstance(st, ast.AugAssign) else st.targets))]
             ctx.need(not prog and augs and not [o for o in other if o not in augs], f'{where}: progress statement of the loop `while {pf.nsrc(lp.test)}` not recognised')
+            # evidence: the loop counts something the analysis resolved completely (a constant, the request size, the parameter) that is not the block length
+            try:
+                pv = linform.lin(_expand_except(f, augs[0].value, rv))
+            except AnalysisError as ex:
+                raise AnalysisError(f'{where}: progress statement `{pf.nsrc(augs[0])}` not linear ({ex})')
+            fparams = [a.arg for a in f.args.args]
+            foreign = [x for x in pv.symbols() if x not in fparams and x != amount and x != f'len({rv})']
+            ctx.need(not foreign and len(augs) == 1, f'{where}: progress statement `{pf.nsrc(augs[0])}` depends on {foreign}; not recognised')
             ctx.bad('R3', cons, f'the loop counts `{pf.nsrc(augs[0])}` per iteration, not the {amount} bytes it obtained from `{pf.nsrc(call)}`: it stops before / after {nparam} bytes have been read',
                     mm.path, augs[0].lineno)
             continue
@@ -1001,6 +1455,10 @@ def _exact_read_loops(ctx: Ctx, mm: pf.Module, qual: str) -> None:
         # --- end of file inside the loop
         def empties(t: ast.AST) -> bool:
             e = t
+            if kind in _SIZE_READERS and c23norm.emptiness(e, rv) is True:
+                return True
+            if kind in _INTO_READERS and c23norm.truth_of_name(e, rv) is False:
+                return True
             if isinstance(e, ast.UnaryOp) and isinstance(e.op, ast.Not):
                 return pf.nsrc(e.operand) in (rv, f'len({rv})')
             if isinstance(e, ast.Compare) and len(e.ops) == 1:
@@ -1027,6 +1485,10 @@ def _exact_read_loops(ctx: Ctx, mm: pf.Module, qual: str) -> None:
                             f'no UnexpectedEOFError for a range that ends early')
             line = ztests[0].lineno
         elif not ztests and not raises_in and not exits:
+            hidden = [c for c in pf.calls_in(lp) if c is not call and ((isinstance(c.func, ast.Attribute) and pf.nsrc(c.func.value) == 'self')
+                                                                        or (isinstance(c.func, ast.Name) and mm.has_func(c.func.id)))]
+            ctx.need(not hidden and not any(isinstance(x, ast.If) for x in ast.walk(lp)), f'{where}: the loop `while {pf.nsrc(lp.test)}` has no end-of-file test the analysis recognises '
+                     f'(`{pf.nsrc(hidden[0])[:50] if hidden else "a test of another shape"}` may be one)')
             problems.append(f'end of file is not detected: when `{pf.nsrc(call)}` returns nothing the loop neither raises UnexpectedEOFError nor ends')
         else:
             raise AnalysisError(f'{where}: end-of-file handling of the loop `while {pf.nsrc(lp.test)}` not recognised')
@@ -1057,8 +1519,48 @@ def _exact_read_loops(ctx: Ctx, mm: pf.Module, qual: str) -> None:
                  f'{where}: `{r.text()}` does not return the data collected in `{data}`')
 
 
+def _inline_private(m: pf.Module, cls_name: str, target: str) -> Tuple[pf.Module, pf.FuncDef, List[str]]:
+    """Method `target` of `cls_name` with the calls to private, concrete helper methods of the same class inlined (engines/inline), provided
+    no class under hailtop redefines the helper (then the call is not dynamic dispatch in disguise).  Everything else stays a call.
+    Returns (module holding the function, the function, names of the helpers that were inlined at least once)."""
+    cls = m.cls(cls_name)
+    own = {f.name: f for f in cls.body if isinstance(f, (ast.FunctionDef, ast.AsyncFunctionDef))}
+    if target not in own:
+        return m, m.func(f'{cls_name}.{target}'), []
+    cand: set = set()
+    work = [target]
+    while work:
+        cur = work.pop()
+        for c in pf.calls_in(own[cur], into_nested_defs=True):
+            if not (isinstance(c.func, ast.Attribute) and pf.nsrc(c.func.value) == 'self'):
+                continue
+            name = c.func.attr
+            f = own.get(name)
+            if f is None or name in cand or name == target or not name.startswith('_') or name.startswith('__') or f.decorator_list:
+                continue
+            body = [st for st in f.body if not (isinstance(st, ast.Expr) and isinstance(st.value, ast.Constant))]
+            if all(isinstance(st, (ast.Pass, ast.Raise)) for st in body):
+                continue
+            cand.add(name)
+            work.append(name)
+    if cand:
+        for rel in pf.walk_py(SCAN_DIRS):
+            for c in pf.load(rel).classes():
+                if c.name == cls_name and rel == m.rel:
+                    continue
+                cand -= {f.name for f in c.body if isinstance(f, (ast.FunctionDef, ast.AsyncFunctionDef))}
+    if not cand:
+        return m, m.func(f'{cls_name}.{target}'), []
+    m2, il = inline.inline_methods(m, cls_name, target, exclude=tuple(n for n in own if n not in cand))
+    return m2, m2.func(f'{cls_name}.{target}'), sorted({n for n, _line in il.inlined})
+
+
+def _with_private_helpers_inlined(m: pf.Module, cls_name: str, target: str) -> pf.FuncDef:
+    return _inline_private(m, cls_name, target)[1]
+
+
 def _front(ctx: Ctx, stream_verdicts: Optional[Dict[str, bool]] = None) -> None:
-    m = pf.load(FS)
+    m = _load(FS)
     # read_range
     fn = m.func('AsyncFS.read_range')
     where = f'{FS}::AsyncFS.read_range'
@@ -1075,36 +1577,29 @@ def _front(ctx: Ctx, stream_verdicts: Optional[Dict[str, bool]] = None) -> None:
     ctx.need(len(rets) == 1, f'{where}: expected one return inside the with block')
     rc = rets[0].value.value if isinstance(rets[0].value, ast.Await) else rets[0].value
     ctx.need(isinstance(rc, ast.Call) and isinstance(rc.func, ast.Attribute) and pf.nsrc(rc.func.value) == fv, f'{where}: return is not a read on `{fv}`')
-    env = {k: v[0] for k, v in pf.assignments(fn).items() if len(v) == 1 and isinstance(v[0], ast.expr)}
-
-    class _Incl(ast.NodeTransformer):
-        """`1 if end_inclusive else 0` -> end_inclusive (both are the 0/1 indicator)."""
-        def visit_IfExp(self, node):  # noqa: N802
-            if pf.nsrc(node.test) == kw[0] and pf.nsrc(node.body) == '1' and pf.nsrc(node.orelse) == '0':
-                return ast.Name(kw[0], ast.Load())
-            return node
-
-    def norm_incl(x: ast.AST) -> ast.AST:
-        return _Incl().visit(ast.parse(pf.nsrc(x), mode='eval').body)
-
-    def span(e: ast.AST) -> linform.Lin:
-        incl = {f'bool({kw[0]})': linform.sym('INCL'), f'int({kw[0]})': linform.sym('INCL'), kw[0]: linform.sym('INCL')}
-        return linform.lin(norm_incl(e), {**{k: norm_incl(v) for k, v in env.items()}, **incl})
-
-    want = linform.sym(end) - linform.sym(start) + linform.sym('INCL')
-    try:
-        n_len = span(lk[0])
-        n_read = span(rc.args[0]) if rc.args else None
-    except AnalysisError as e:
-        raise AnalysisError(f'{where}: span expression not linear ({e})')
-    d = n_len - want
-    ctx.check(d == linform.const(0), 'R3', f'{where}::n = end - start + inclusive',
-              f'the length requested is `{n_len!r}`, expected `{want!r}`: ' +
-              ('an inclusive range loses its last byte / an exclusive one is read as inclusive' if d.symbols() == ['INCL'] or (d.is_const() and abs(d.const) == 1) else 'the wrong span is read'),
-              m.path, oc.lineno)
-    ctx.check(rc.func.attr == 'readexactly' and n_read is not None and n_read == n_len, 'R3', f'{where}::readexactly(n)',
-              f'`{pf.nsrc(rets[0])}` does not read exactly the requested span ({n_len!r}): a short read is returned silently instead of signalling an unexpected end of file',
-              m.path, rets[0].lineno)
+    # the span, on every path to the open_from call (the inclusive flag may be folded in arithmetically or by an if-statement)
+    paths = _flag_paths(ctx, fn, where, kw[0], oc, [lk[0], rc.args[0] if rc.args else None], [start, end])
+    span_bad: List[str] = []
+    read_bad: List[str] = []
+    for incl, (n_len, n_read), via in paths:
+        ind = linform.sym('INCL') if incl is None else linform.const(int(incl))
+        want = linform.sym(end) - linform.sym(start) + ind
+        case = {None: '', True: f' when {kw[0]} is true', False: f' when {kw[0]} is false'}[incl]
+        d = n_len - want  # type: ignore[operator]
+        if d != linform.const(0):
+            span_bad.append(f'the length requested{case} is `{n_len!r}`, expected `{want!r}`: ' +
+                            ('an inclusive range loses its last byte / an exclusive one is read as inclusive' if d.symbols() == ['INCL'] or (d.is_const() and abs(d.const) == 1)
+                             else 'the wrong span is read'))
+        if n_read is not None and n_read != n_len:
+            read_bad.append(f'{n_read!r} bytes are read{case} from a stream opened with length {n_len!r}')
+    ctx.check(not span_bad, 'R3', f'{where}::n = end - start + inclusive', span_bad[0] if span_bad else '', m.path, oc.lineno, detail={'paths': len(paths)})
+    rattr = rc.func.attr
+    # evidence for "not exact": an at-most reader (`read(k)`), or readexactly with a different count; any other method is not understood
+    ctx.need(rattr in ('readexactly', 'read'), f'{where}: `{pf.nsrc(rets[0])}` uses `{rattr}`, which the analysis does not know')
+    ctx.need(not rc.keywords and len(rc.args) <= 1, f'{where}: `{pf.nsrc(rc)}` not recognised')
+    ctx.check(rattr == 'readexactly' and rc.args and not read_bad, 'R3', f'{where}::readexactly(n)',
+              f'`{pf.nsrc(rets[0])}` does not read exactly the requested span' + (f' ({read_bad[0]})' if read_bad else '') +
+              ': a short read is returned silently instead of signalling an unexpected end of file', m.path, rets[0].lineno)
     # read_from
     fn = m.func('AsyncFS.read_from')
     where = f'{FS}::AsyncFS.read_from'
@@ -1115,10 +1610,31 @@ def _front(ctx: Ctx, stream_verdicts: Optional[Dict[str, bool]] = None) -> None:
     rets = [st for st in ast.walk(wst) if isinstance(st, ast.Return)]
     ctx.need(len(rets) == 1, f'{where}: expected one return')
     rc = rets[0].value.value if isinstance(rets[0].value, ast.Await) else rets[0].value
-    ok = [pf.nsrc(x) for x in oc.args] == a[1:] and not oc.keywords and isinstance(rc, ast.Call) and pf.nsrc(rc.func) == f'{fv}.read' and not rc.args and not rc.keywords
-    ctx.check(ok, 'R3', f'{where}::open_from(url, start) + read()', f'`{pf.nsrc(oc)}` / `{pf.nsrc(rets[0])}` do not read everything from `{a[2]}` to the end', m.path, oc.lineno)
-    # open_from
-    fn = m.func('AsyncFS.open_from')
+    ctx.need(isinstance(rc, ast.Call) and isinstance(rc.func, ast.Attribute) and pf.nsrc(rc.func.value) == fv and not rc.keywords
+             and not any(isinstance(x, ast.Starred) for x in rc.args), f'{where}: `{pf.nsrc(rets[0])}` is not a read on `{fv}`')
+    decl_of = m.func('AsyncFS.open_from')
+    oparams = [x.arg for x in decl_of.args.args][1:] + [x.arg for x in decl_of.args.kwonlyargs]
+    ctx.need(len(oparams) == 3, f'{FS}::AsyncFS.open_from: signature changed')
+    ob = _bind_args(oc, oparams[:2])
+    ctx.need(ob is not None, f'{where}: `{pf.nsrc(oc)}` not recognised')
+    problems: List[str] = []
+    for cp, ours in zip(oparams[:2], a[1:]):
+        v = _unchanged(fn, ob.get(cp), ours)  # type: ignore[union-attr]
+        ctx.need(v is not None, f'{where}: argument `{cp}` of `{pf.nsrc(oc)}` not resolved')
+        if not v:
+            problems.append(f'`{pf.nsrc(oc)}` passes {cp}={pf.nsrc(ob[cp])}, not `{ours}`')  # type: ignore[index]
+    if oparams[2] in ob:  # type: ignore[operator]
+        lv = pf.expand_locals(fn, ob[oparams[2]])  # type: ignore[index]
+        if not (isinstance(lv, ast.Constant) and lv.value is None):
+            ctx.need(isinstance(lv, ast.Constant) or _unchanged(fn, lv, '') is False, f'{where}: length of `{pf.nsrc(oc)}` not resolved')
+            problems.append(f'`{pf.nsrc(oc)}` bounds the read by length={pf.nsrc(lv)}')
+    # read() / read(-1) read everything; read(k) is an at-most read, readexactly(k) a bounded one; anything else is not understood
+    ctx.need(rc.func.attr in ('read', 'readexactly', 'readall'), f'{where}: `{pf.nsrc(rc)}` not recognised')
+    if not (rc.func.attr in ('read', 'readall') and (not rc.args or pf.nsrc(rc.args[0]) == '-1')):
+        problems.append(f'`{pf.nsrc(rets[0])}` reads a bounded number of bytes')
+    ctx.check(not problems, 'R3', f'{where}::open_from(url, start) + read()', (problems[0] if problems else '') + f': not everything from `{a[2]}` to the end is read', m.path, oc.lineno)
+    # open_from (private helpers of AsyncFS that no other class overrides are analysed inlined: `return await self._open_empty_range(url)`)
+    fn = _with_private_helpers_inlined(m, 'AsyncFS', 'open_from')
     where = f'{FS}::AsyncFS.open_from'
     url, start, length = _sig(ctx, fn, where)
     g = pf.cfg(fn)
@@ -1126,9 +1642,11 @@ def _front(ctx: Ctx, stream_verdicts: Optional[Dict[str, bool]] = None) -> None:
     ctx.need(len(dels) == 1, f'{where}: expected one delegation to self._open_from')
     dc = dels[0]
     DN = g.node_of(dc)[0]
-    args = [pf.nsrc(x) for x in dc.args]
-    kwd = {k.arg: pf.nsrc(k.value) for k in dc.keywords}
-    ctx.check(args == [url, start] and kwd == {'length': length}, 'R3', f'{where}::forwards unchanged', f'`{pf.nsrc(dc)}` does not forward ({url}, {start}, length={length})', m.path, dc.lineno)
+    bdecl = m.func('AsyncFS._open_from')
+    bparams = [x.arg for x in bdecl.args.args][1:] + [x.arg for x in bdecl.args.kwonlyargs]
+    ctx.need(len(bparams) == 3 and len(dc.args) <= 2, f'{where}: `{pf.nsrc(dc)}` / the declaration of _open_from not recognised')
+    _forwarding(ctx, fn, dc, bparams, dict(zip(bparams, (url, start, length))), {bparams[2]: 'the back end then reads to the end of the object'}, 'R3',
+                f'{where}::forwards unchanged', where, m.path)
     # what open_from hands to the caller is the back end's stream itself; a wrapper put around it is a new ReadableStream implementation
     # in the path of every ranged read: its read-all contract is decided by R6, its bounded-read accounting is not analysed (declined)
     rcons = f'{where}::returns the stream of _open_from'
@@ -1175,8 +1693,17 @@ def _front(ctx: Ctx, stream_verdicts: Optional[Dict[str, bool]] = None) -> None:
         dom = g.dominated_by(DN, lambda n: n is Z)
         ctx.check(p is None and dom, 'R3', zcons, f'with `{length} == 0` the call `{pf.nsrc(dc)}` is still reachable', m.path, Z.lineno)
         # the empty case returns an empty stream for an existing file
-        empt = [st for st in _stmts(fn) if isinstance(st, ast.Return) and isinstance(st.value, ast.Call) and pf.dotted(st.value.func) == 'EmptyReadableStream']
-        ctx.check(len(empt) >= 1, 'R3', f'{where}::empty range yields an empty stream', 'the length == 0 branch never returns EmptyReadableStream()', m.path, Z.lineno)
+        zreach = g.reachable_from(Z, edge_ok=lambda a, b, lab: a is not Z or lab == zl)
+        zrets = [n for n in g.nodes if n.kind == 'return' and n.id in zreach and n is not DN and n is not Z]
+        zvals = [pf.expand_locals(fn, n.ast.value) if getattr(n.ast, 'value', None) is not None else None for n in zrets]  # type: ignore[union-attr]
+        zvals = [v.value if isinstance(v, ast.Await) else v for v in zvals]
+        econs = f'{where}::empty range yields an empty stream'
+        if any(isinstance(v, ast.Call) and (pf.dotted(v.func) or '').split('.')[-1] == 'EmptyReadableStream' for v in zvals):
+            ctx.ok('R3', econs, {'returns': [pf.nsrc(v) for v in zvals if v is not None]})
+        else:
+            # evidence: the branch only raises / returns nothing; a value the analysis cannot name (a helper's result) is not evidence
+            ctx.need(all(v is None or isinstance(v, ast.Constant) for v in zvals), f'{where}: what the `{length} == 0` branch returns ({[pf.nsrc(v) for v in zvals if v is not None]}) is not recognised')
+            ctx.bad('R3', econs, f'the `{length} == 0` branch never returns EmptyReadableStream(): ' + ('it only raises' if not zvals else 'it returns no stream'), m.path, Z.lineno)
     ctx.unit('functions', 3)
 
     # readexactly implementations signal a short read
@@ -1204,15 +1731,22 @@ def _front(ctx: Ctx, stream_verdicts: Optional[Dict[str, bool]] = None) -> None:
                 continue
         sites.append((rel, qual))
     for rel, qual in sites:
-        mm = pf.load(rel)
-        f = mm.func(qual)
+        mm = _load(rel)
+        # private helpers of the class (a short-read check that was extracted) are analysed inlined
+        mm, f, _inl = _inline_private(mm, qual.split('.')[0], qual.split('.')[1])
         if any(isinstance(x, ast.While) for x in pf.walk_shallow(f)):
             # built from a loop over an at-most reader (the blocking adapter; a stream that re-implements readexactly on top of its read)
-            _exact_read_loops(ctx, mm, qual)
-        raises = [st for st in _stmts(f) if isinstance(st, ast.Raise) and st.exc is not None and (pf.dotted(st.exc.func if isinstance(st.exc, ast.Call) else st.exc) or '') == 'UnexpectedEOFError']
+            _exact_read_loops(ctx, mm, qual, f)
+        raises = [st for st in _stmts(f) if _is_eof_raise(st)]
         gg = pf.cfg(f)
         reach = gg.reachable_from(gg.entry)
         live = [r for r in raises if any(n.ast is r and n.id in reach for n in gg.nodes)]
+        if not live:
+            # "nothing here raises UnexpectedEOFError" is evidence only when nothing is out of sight: a call of another method of the object / of a
+            # function of the module (other than the at-most read it is built on) may be the one that raises
+            hidden = [c for c in pf.calls_in(f, into_nested_defs=True)
+                      if (isinstance(c.func, ast.Attribute) and pf.nsrc(c.func.value) in ('self', 'super()') and c.func.attr != 'read') or (isinstance(c.func, ast.Name) and mm.has_func(c.func.id))]
+            ctx.need(not hidden, f'{rel}::{qual}: no `raise UnexpectedEOFError` here; `{pf.nsrc(hidden[0])[:60] if hidden else ""}` may raise it; not analysed')
         ctx.check(bool(live), 'R3', f'{rel}::{qual}::short read raises UnexpectedEOFError', 'no reachable `raise UnexpectedEOFError`: a range that ends early is returned as if complete',
                   mm.path, f.lineno)
         # `data = await self.read(n)` followed by a length test: the test must reject every short read and no complete one
@@ -1225,7 +1759,7 @@ def _front(ctx: Ctx, stream_verdicts: Optional[Dict[str, bool]] = None) -> None:
             guards = [x for x in ast.walk(f) if isinstance(x, ast.If) and any(r in x.body for r in raises)]
             if len(guards) != 1 or any(isinstance(x, ast.While) for x in pf.walk_shallow(f)):
                 continue
-            t = guards[0].test
+            t = _expand_except(f, guards[0].test, name)
             cons = f'{rel}::{qual}::short read test'
             want = linform.sym(f'len({name})') - linform.sym(nparam)
             ctx.need(isinstance(t, ast.Compare) and len(t.ops) == 1, f'{rel}::{qual}: short-read test `{pf.nsrc(t)}` not recognised')
@@ -1292,7 +1826,7 @@ def _stream_classes() -> List[Tuple[str, pf.Module, ast.ClassDef]]:
     """Classes under hailtop derived (by base name, transitively) from ReadableStream."""
     allc: List[Tuple[str, pf.Module, ast.ClassDef]] = []
     for rel in pf.walk_py(SCAN_DIRS):
-        m = pf.load(rel)
+        m = _load(rel)
         for cls in m.classes():
             allc.append((rel, m, cls))
     derived = {'ReadableStream'}
@@ -1385,8 +1919,15 @@ def _read_all_contract(ctx: Ctx, verdicts: Dict[str, bool]) -> None:
                     _accumulating_loop(ctx, rd, where, e.args[0].id, loops)
                     oks.append(pf.nsrc(e))
                     return
-                while has_count and isinstance(count, ast.IfExp) and st[0] and _sentinel_truth(count.test, n) is not None:
-                    count = count.body if _sentinel_truth(count.test, n) else count.orelse
+                hops = 0
+                while has_count and hops < 6:
+                    hops += 1
+                    if isinstance(count, ast.IfExp) and st[0] and _sentinel_truth(count.test, n) is not None:
+                        count = count.body if _sentinel_truth(count.test, n) else count.orelse
+                    elif isinstance(count, ast.Name) and count.id != n and count.id in env:
+                        count, st = env[count.id]  # a local holding the count: its value, and what n was where it was defined
+                    else:
+                        break
                 if has_count and recv_call is not None and count is not None:
                     if pf.nsrc(count) == '-1' or (isinstance(count, ast.Constant) and count.value is None):
                         oks.append(pf.nsrc(e))
@@ -1395,6 +1936,10 @@ def _read_all_contract(ctx: Ctx, verdicts: Dict[str, bool]) -> None:
                         oks.append(pf.nsrc(e) + f' ({n} is the caller\'s -1)')
                         return
                     ctx.need(in_loop(recv_call) is None, f'{where}: `{pf.nsrc(e)}` inside a loop on the read-all path; accumulation not recognised')
+                    # evidence for "bounded": a count that does not come from the caller's -1 (a constant, a field, a rebound n with a known value)
+                    ctx.need(not (n in pf.names_in(count) and (st[0] or st[1] is None)), f'{where}: the count `{pf.nsrc(count)}` of `{pf.nsrc(e)}` depends on `{n}` in a way that is not recognised')
+                    ctx.need(not any(isinstance(x, ast.Name) and x.id != n and x.id not in env and len(pf.assignments(rd).get(x.id, [])) > 1 for x in ast.walk(count)),
+                             f'{where}: the count `{pf.nsrc(count)}` of `{pf.nsrc(e)}` is a local bound in several places; not recognised')
                     ctx.need(awaited, f'{where}: blocking `{pf.nsrc(e)}` with a count on the read-all path: whether it stops early depends on the file object; not decided')
                     cnt = pf.nsrc(count)
                     if isinstance(count, ast.Name) and count.id == n and st[1] is not None:
@@ -1495,7 +2040,7 @@ def _accumulating_loop(ctx: Ctx, rd: pf.FuncDef, where: str, acc: str, loops: Li
     ctx.need(len(apps) == 1, f'{where}: not every block read is appended to `{acc}`')
     for br in [x for x in ast.walk(lp) if isinstance(x, (ast.Break, ast.Return, ast.Continue))]:
         guard = [st for st in lp.body if isinstance(st, ast.If) and br in st.body and not st.orelse]
-        ok = len(guard) == 1 and isinstance(br, ast.Break) and pf.nsrc(guard[0].test) in (f'not {rv}', f'len({rv}) == 0', f"{rv} == b''") and lp.body.index(guard[0]) > lp.body.index(reads[0])
+        ok = len(guard) == 1 and isinstance(br, ast.Break) and c23norm.emptiness(guard[0].test, rv) is True and lp.body.index(guard[0]) > lp.body.index(reads[0])
         ctx.need(ok, f'{where}: the loop filling `{acc}` is left by `{pf.nsrc(br)}` under a condition that is not "the read returned nothing"')
     if isinstance(lp.test, ast.Constant) and lp.test.value is True:
         return
